@@ -144,56 +144,62 @@ fn compute_seed_hash(seed: u64) -> (r: u16)
   requires seed_hash_spec(seed) != 0
   ensures r == seed_hash_spec(seed)
 { unimplemented!() }
-const DEFAULT_UPDATE_SEED: u64 = 9001;
+const DEFAULT_UPDATE_SEED : u64 = 9001 ;
+
 
 // =====================================================================================================================
 // codec/encode.rs: SketchBytes, real bodies, view = the bytes written so far
 // =====================================================================================================================
 struct SketchBytes {
-    bytes: Vec<u8>,
-}
+bytes : Vec < u8 > , }
+
 
 impl SketchBytes {
     spec fn view(&self) -> Seq<u8> { self.bytes@ }
 
-    fn with_capacity(capacity: usize) -> (r: Self) ensures r@ == Seq::<u8>::empty() {
-        Self {
-            bytes: Vec::with_capacity(capacity),
-        }
-    }
+    fn with_capacity ( capacity : usize ) -> ( r : Self ) ensures r @ == Seq :: < u8 > :: empty ( ) {
+Self {
+bytes : Vec :: with_capacity ( capacity ) , }
+}
 
-    fn into_bytes(self) -> (r: Vec<u8>) ensures r@ == self@ {
-        self.bytes
-    }
 
-    fn write(&mut self, buf: &[u8]) ensures final(self)@ == old(self)@ + buf@ {
-        self.bytes.extend_from_slice(buf);
-    }
+    fn into_bytes ( self ) -> ( r : Vec < u8 > ) ensures r @ == self @ {
+self . bytes }
 
-    fn write_u8(&mut self, n: u8) ensures final(self)@ == old(self)@.push(n) {
-        self.bytes.push(n);
-    }
 
-    fn write_u16_le(&mut self, n: u16) ensures final(self)@ == old(self)@ + le16_bytes(n) {
-        self.write(&vx_u16_to_le_bytes(n));
-    }
+    fn write ( & mut self , buf : & [ u8 ] ) ensures final ( self ) @ == old ( self ) @ + buf @ {
+self . bytes . extend_from_slice ( buf ) ;
+}
 
-    fn write_u32_le(&mut self, n: u32) ensures final(self)@ == old(self)@ + le32_bytes(n) {
-        self.write(&vx_u32_to_le_bytes(n));
-    }
 
-    fn write_f64_le(&mut self, n: f64) ensures final(self)@ == old(self)@ + le64_bytes(f64_bits(n)) {
-        self.write(&vx_f64_to_le_bytes(n));
-    }
+    fn write_u8 ( & mut self , n : u8 ) ensures final ( self ) @ == old ( self ) @ . push ( n ) {
+self . bytes . push ( n ) ;
+}
+
+
+    fn write_u16_le ( & mut self , n : u16 ) ensures final ( self ) @ == old ( self ) @ + le16_bytes ( n ) {
+self . write ( & vx_u16_to_le_bytes ( n ) ) ;
+}
+
+
+    fn write_u32_le ( & mut self , n : u32 ) ensures final ( self ) @ == old ( self ) @ + le32_bytes ( n ) {
+self . write ( & vx_u32_to_le_bytes ( n ) ) ;
+}
+
+
+    fn write_f64_le ( & mut self , n : f64 ) ensures final ( self ) @ == old ( self ) @ + le64_bytes ( f64_bits ( n ) ) {
+self . write ( & vx_f64_to_le_bytes ( n ) ) ;
+}
+
 }
 
 // =====================================================================================================================
 // codec/decode.rs: SketchSlice; the std Cursor is abstracted by rem() = the bytes not yet consumed.
 // =====================================================================================================================
 #[verifier::external_body]
-struct SketchSlice<'a> {
-    slice: Cursor<&'a [u8]>,
-}
+struct SketchSlice < 'a > {
+slice : Cursor < & 'a [ u8 ] > , }
+
 
 impl SketchSlice<'_> {
     uninterp spec fn rem(&self) -> Seq<u8>;
@@ -213,91 +219,79 @@ impl SketchSlice<'_> {
         unimplemented!()
     }
 
-    fn read_u8(&mut self) -> (r: io::Result<u8>)
-      ensures
-        old(self).rem().len() >= 1 ==> (r matches Ok(v) && v == old(self).rem()[0] && final(self).rem() == old(self).rem().skip(1)),
-        old(self).rem().len() < 1 ==> r is Err,
-    {
-        let mut buf = [0u8; 1];
-        self.read_exact(&mut buf)?;
-        Ok(buf[0])
-    }
+    fn read_u8 ( & mut self ) -> ( r : io :: Result < u8 > ) ensures old ( self ) . rem ( ) . len ( ) >= 1 ==> ( r matches Ok ( v ) && v == old ( self ) . rem ( ) [ 0 ] && final ( self ) . rem ( ) == old ( self ) . rem ( ) . skip ( 1 ) ) , old ( self ) . rem ( ) . len ( ) < 1 ==> r is Err , {
+let mut buf = [ 0u8 ;
+1 ] ;
+self . read_exact ( & mut buf ) ? ;
+Ok ( buf [ 0 ] ) }
 
-    fn read_u16_le(&mut self) -> (r: io::Result<u16>)
-      ensures
-        old(self).rem().len() >= 2 ==> (r matches Ok(v) && v == le16_val(old(self).rem().take(2)) && final(self).rem() == old(self).rem().skip(2)),
-        old(self).rem().len() < 2 ==> r is Err,
-    {
-        let mut buf = [0u8; 2];
-        self.read_exact(&mut buf)?;
-        Ok(vx_u16_from_le_bytes(buf))
-    }
 
-    fn read_u32_le(&mut self) -> (r: io::Result<u32>)
-      ensures
-        old(self).rem().len() >= 4 ==> (r matches Ok(v) && v == le32_val(old(self).rem().take(4)) && final(self).rem() == old(self).rem().skip(4)),
-        old(self).rem().len() < 4 ==> r is Err,
-    {
-        let mut buf = [0u8; 4];
-        self.read_exact(&mut buf)?;
-        Ok(vx_u32_from_le_bytes(buf))
-    }
+    fn read_u16_le ( & mut self ) -> ( r : io :: Result < u16 > ) ensures old ( self ) . rem ( ) . len ( ) >= 2 ==> ( r matches Ok ( v ) && v == le16_val ( old ( self ) . rem ( ) . take ( 2 ) ) && final ( self ) . rem ( ) == old ( self ) . rem ( ) . skip ( 2 ) ) , old ( self ) . rem ( ) . len ( ) < 2 ==> r is Err , {
+let mut buf = [ 0u8 ;
+2 ] ;
+self . read_exact ( & mut buf ) ? ;
+Ok ( vx_u16_from_le_bytes ( buf ) ) }
 
-    fn read_f64_le(&mut self) -> (r: io::Result<f64>)
-      ensures
-        old(self).rem().len() >= 8 ==> (r matches Ok(v) && v == f64_of_bits(le64_val(old(self).rem().take(8))) && final(self).rem() == old(self).rem().skip(8)),
-        old(self).rem().len() < 8 ==> r is Err,
-    {
-        let mut buf = [0u8; 8];
-        self.read_exact(&mut buf)?;
-        Ok(vx_f64_from_le_bytes(buf))
-    }
+
+    fn read_u32_le ( & mut self ) -> ( r : io :: Result < u32 > ) ensures old ( self ) . rem ( ) . len ( ) >= 4 ==> ( r matches Ok ( v ) && v == le32_val ( old ( self ) . rem ( ) . take ( 4 ) ) && final ( self ) . rem ( ) == old ( self ) . rem ( ) . skip ( 4 ) ) , old ( self ) . rem ( ) . len ( ) < 4 ==> r is Err , {
+let mut buf = [ 0u8 ;
+4 ] ;
+self . read_exact ( & mut buf ) ? ;
+Ok ( vx_u32_from_le_bytes ( buf ) ) }
+
+
+    fn read_f64_le ( & mut self ) -> ( r : io :: Result < f64 > ) ensures old ( self ) . rem ( ) . len ( ) >= 8 ==> ( r matches Ok ( v ) && v == f64_of_bits ( le64_val ( old ( self ) . rem ( ) . take ( 8 ) ) ) && final ( self ) . rem ( ) == old ( self ) . rem ( ) . skip ( 8 ) ) , old ( self ) . rem ( ) . len ( ) < 8 ==> r is Err , {
+let mut buf = [ 0u8 ;
+8 ] ;
+self . read_exact ( & mut buf ) ? ;
+Ok ( vx_f64_from_le_bytes ( buf ) ) }
+
 }
 
 // =====================================================================================================================
 // codec/family.rs, codec/assert.rs, cpc/serialization.rs, cpc/mod.rs: constants (taken from /repo every run)
 // =====================================================================================================================
 struct Family {
-    id: u8,
-    name: &'static str,
-    min_pre_longs: u8,
-    max_pre_longs: u8,
-}
+id : u8 , name : & 'static str , min_pre_longs : u8 , max_pre_longs : u8 , }
+
 
 impl Family {
-    const CPC: Family = Family {
-        id: 16,
-        name: "CPC",
-        min_pre_longs: 1,
-        max_pre_longs: 5,
-    };
+    const CPC : Family = Family {
+id : 16 , name : "CPC" , min_pre_longs : 1 , max_pre_longs : 5 , }
+;
 
-    fn validate_id(&self, family_id: u8) -> (r: Result<(), Error>) ensures r is Ok <==> family_id == self.id {
-        if family_id != self.id {
-            Err(Error::invalid_family(self.id, family_id, self.name))
-        } else {
-            Ok(())
-        }
-    }
+
+    fn validate_id ( & self , family_id : u8 ) -> ( r : Result < ( ) , Error > ) ensures r is Ok <==> family_id == self . id {
+if family_id != self . id {
+Err ( Error :: invalid_family ( self . id , family_id , self . name ) ) }
+else {
+Ok ( ( ) ) }
 }
 
-fn ensure_serial_version_is(expected: u8, actual: u8) -> (r: Result<(), Error>) ensures r is Ok <==> expected == actual {
-    if expected == actual {
-        Ok(())
-    } else {
-        Err(Error::deserial(format!(
-            "unsupported serial version: expected {expected}, got {actual}"
-        )))
-    }
 }
 
-const SERIAL_VERSION: u8 = 1;
-const FLAG_COMPRESSED: u8 = 1;
-const FLAG_HAS_HIP: u8 = 2;
-const FLAG_HAS_TABLE: u8 = 3;
-const FLAG_HAS_WINDOW: u8 = 4;
-const MIN_LG_K: u8 = 4;
-const MAX_LG_K: u8 = 26;
+fn ensure_serial_version_is ( expected : u8 , actual : u8 ) -> ( r : Result < ( ) , Error > ) ensures r is Ok <==> expected == actual {
+if expected == actual {
+Ok ( ( ) ) }
+else {
+Err ( Error :: deserial ( format! ( "unsupported serial version: expected {expected}, got {actual}" ) ) ) }
+}
+
+
+const SERIAL_VERSION : u8 = 1 ;
+
+const FLAG_COMPRESSED : u8 = 1 ;
+
+const FLAG_HAS_HIP : u8 = 2 ;
+
+const FLAG_HAS_TABLE : u8 = 3 ;
+
+const FLAG_HAS_WINDOW : u8 = 4 ;
+
+const MIN_LG_K : u8 = 4 ;
+
+const MAX_LG_K : u8 = 26 ;
+
 
 // =====================================================================================================================
 // FORMAT SPEC (DESIGN.md Appendix A, "CPC"; family 16, serVer 1).  Written from the published layout, not from the Rust code.
@@ -504,49 +498,41 @@ proof fn lemma_cpc_framing_roundtrip(v: CpcImg)
 }
 
 // cpc/serialization.rs
-fn make_preamble_ints(
-    num_coupons: u32,
-    has_hip: bool,
-    has_table: bool,
-    has_window: bool,
-) -> (r: u8)
-  ensures /*@C12.cpc.pre_ints*/ r == pre_ints_spec(num_coupons > 0, has_hip, has_table, has_window)
-{
-    let mut preamble_ints = 2;
-    if num_coupons > 0 {
-        preamble_ints += 1; // number of coupons
-        if has_hip {
-            preamble_ints += 4; // HIP
-        }
-        if has_table {
-            preamble_ints += 1; // table data length
-            // number of values (if there is no window it is the same as number of coupons)
-            if has_window {
-                preamble_ints += 1;
-            }
-        }
-        if has_window {
-            preamble_ints += 1; // window length
-        }
-    }
-    preamble_ints
+fn make_preamble_ints ( num_coupons : u32 , has_hip : bool , has_table : bool , has_window : bool , ) -> ( r : u8 ) ensures
+/*@C12.cpc.pre_ints*/ r == pre_ints_spec ( num_coupons > 0 , has_hip , has_table , has_window ) {
+let mut preamble_ints = 2 ;
+if num_coupons > 0 {
+preamble_ints += 1 ;
+if has_hip {
+preamble_ints += 4 ;
 }
+if has_table {
+preamble_ints += 1 ;
+if has_window {
+preamble_ints += 1 ;
+}
+}
+if has_window {
+preamble_ints += 1 ;
+}
+}
+preamble_ints }
+
 
 
 // =====================================================================================================================
 // cpc/pair_table.rs: the table invariant (definitions VERBATIM from contracts/cpc_pairtable.rs, where lookup / must_insert /
 // maybe_insert / maybe_delete / rebuild are proved against them); `new` and `must_insert` are by contract here.
 // =====================================================================================================================
-const UPSIZE_NUMERATOR: u32 = 3;
-const UPSIZE_DENOMINATOR: u32 = 4;
+const UPSIZE_NUMERATOR : u32 = 3 ;
+
+const UPSIZE_DENOMINATOR : u32 = 4 ;
+
 const EMPTY: u32 = 0xffff_ffff;
 
 struct PairTable {
-    lg_size: u8,
-    num_valid_bits: u8,
-    num_items: u32,
-    slots: Vec<u32>,
-}
+lg_size : u8 , num_valid_bits : u8 , num_items : u32 , slots : Vec < u32 > , }
+
 
 spec fn probe_at(p0: int, s: int, j: int, size: int) -> int { (p0 + j * s) % size }
 spec fn phome(item: u32, nvb: u8, lg: u8) -> int { (item >> ((nvb - lg) as u32)) as int }
@@ -609,85 +595,91 @@ impl PairTable {
 
     // A constructor specifically tailored to be a part of FM85 decompression scheme: REACHED FROM deserialize with decoded (attacker-chosen) pairs.
     // The preconditions are what its asserts / arithmetic / indexing need; the decompressor establishes none of them for arbitrary bytes.
-    fn from_slots(lg_size: u8, num_items: u32, slots: Vec<u32>) -> (r: Self)
-      requires
-        4 <= lg_size <= 26,     // = lg_k, validated by the parser
-        /*@C14.cpc.from_slots.count*/ num_items <= slots@.len(),
-        // `4 * num_items` (u32), `Self::new` asserts lg_num_slots <= 26 and lg_num_slots + 1 <= 6 + lg_size
-        /*@C14.cpc.from_slots.fits*/ 4 * num_items <= 3 * pow2(26) && 4 * num_items <= 3 * pow2((5 + lg_size) as nat),
-        // `lookup` asserts probe <= mask; u32::MAX is the empty marker
-        /*@C14.cpc.from_slots.range*/ forall|i: int| 0 <= i < num_items ==> slots@[i] != EMPTY && (#[trigger] slots@[i] as int) < pow2((6 + lg_size) as nat),
-        // `must_insert` asserts the item is not yet present
-        /*@C14.cpc.from_slots.distinct*/ forall|i: int, j: int| 0 <= i < j < num_items ==> slots@[i] != slots@[j],
-      ensures
-        r.wf(), r.num_valid_bits == 6 + lg_size, r.num_items == num_items,
-        forall|x: u32| #[trigger] r.items().contains(x) <==> (exists|i: int| 0 <= i < num_items && slots@[i] == x),
-    {
-        let mut lg_num_slots = 2;
-        proof { lemma2_to64(); lemma_pshl(2); }
-        while UPSIZE_DENOMINATOR * num_items > (UPSIZE_NUMERATOR * (1 << lg_num_slots))
-          invariant 2 <= lg_num_slots <= 26, lg_num_slots <= 5 + lg_size, (1u32 << lg_num_slots) == pow2(lg_num_slots as nat), pow2(26) == 0x400_0000, pow2(lg_num_slots as nat) <= 0x400_0000,
-            4 * num_items <= 3 * pow2(26) && 4 * num_items <= 3 * pow2((5 + lg_size) as nat), 4 <= lg_size <= 26,
-          decreases 26 - lg_num_slots
-        {
-            proof {
-                lemma_pshl(lg_num_slots); lemma_pshl((lg_num_slots + 1) as u8);
-                if lg_num_slots >= 26 { assert(false); }
-                if lg_num_slots >= 5 + lg_size { lemma_pow2_increases((5 + lg_size) as nat, lg_num_slots as nat); assert(false); }
-            }
-            lg_num_slots += 1;
-        }
-        proof { lemma_pshl(lg_num_slots); }
+    fn from_slots ( lg_size : u8 , num_items : u32 , slots : Vec < u32 > ) -> ( r : Self ) requires 4 <= lg_size <= 26 ,
+/*@C14.cpc.from_slots.count*/ num_items <= slots @ . len ( ) ,
+/*@C14.cpc.from_slots.fits*/ 4 * num_items <= 3 * pow2 ( 26 ) && 4 * num_items <= 3 * pow2 ( ( 5 + lg_size ) as nat ) ,
+/*@C14.cpc.from_slots.range*/ forall | i : int | 0 <= i < num_items ==> slots @ [ i ] != EMPTY && ( # [ trigger ] slots @ [ i ] as int ) < pow2 ( ( 6 + lg_size ) as nat ) ,
+/*@C14.cpc.from_slots.distinct*/ forall | i : int , j : int | 0 <= i < j < num_items ==> slots @ [ i ] != slots @ [ j ] , ensures r . wf ( ) , r . num_valid_bits == 6 + lg_size , r . num_items == num_items , forall | x : u32 | # [ trigger ] r . items ( ) . contains ( x ) <==> ( exists | i : int | 0 <= i < num_items && slots @ [ i ] == x ) , {
+let mut lg_num_slots = 2 ;
+proof {
+lemma2_to64 ( ) ;
+lemma_pshl ( 2 ) ;
+}
+while UPSIZE_DENOMINATOR * num_items > ( UPSIZE_NUMERATOR * ( 1 << lg_num_slots ) ) invariant 2 <= lg_num_slots <= 26 , lg_num_slots <= 5 + lg_size , ( 1u32 << lg_num_slots ) == pow2 ( lg_num_slots as nat ) , pow2 ( 26 ) == 0x400_0000 , pow2 ( lg_num_slots as nat ) <= 0x400_0000 , 4 * num_items <= 3 * pow2 ( 26 ) && 4 * num_items <= 3 * pow2 ( ( 5 + lg_size ) as nat ) , 4 <= lg_size <= 26 , decreases 26 - lg_num_slots {
+proof {
+lemma_pshl ( lg_num_slots ) ;
+lemma_pshl ( ( lg_num_slots + 1 ) as u8 ) ;
+if lg_num_slots >= 26 {
+assert ( false ) ;
+}
+if lg_num_slots >= 5 + lg_size {
+lemma_pow2_increases ( ( 5 + lg_size ) as nat , lg_num_slots as nat ) ;
+assert ( false ) ;
+}
+}
+lg_num_slots += 1 ;
+}
+proof {
+lemma_pshl ( lg_num_slots ) ;
+}
+let mut table = Self :: new ( lg_num_slots , 6 + lg_size ) ;
+proof {
+assert ( pocc ( table . slots @ ) =~= Set :: < int > :: empty ( ) ) ;
+}
+for i in 0 .. num_items invariant table . lg_size == lg_num_slots , table . num_valid_bits == 6 + lg_size , 4 <= lg_size <= 26 , ptbl_ok ( table . slots @ , table . num_valid_bits , table . lg_size ) , table . slots @ . len ( ) == pow2 ( lg_num_slots as nat ) , pocc ( table . slots @ ) . len ( ) == i , 4 * num_items <= 3 * pow2 ( lg_num_slots as nat ) , num_items <= slots @ . len ( ) , forall | i : int | 0 <= i < num_items ==> slots @ [ i ] != EMPTY && ( # [ trigger ] slots @ [ i ] as int ) < pow2 ( ( 6 + lg_size ) as nat ) , forall | i : int , j : int | 0 <= i < j < num_items ==> slots @ [ i ] != slots @ [ j ] , forall | x : u32 | x != EMPTY ==> ( # [ trigger ] pholds ( table . slots @ , x ) <==> ( exists | j : int | 0 <= j < i && slots @ [ j ] == x ) ) , {
+let ghost ss0 = table . slots @ ;
+let ghost item = slots @ [ i as int ] ;
+proof {
+if pholds ( ss0 , item ) {
+let j = choose | j : int | 0 <= j < i && slots @ [ j ] == item ;
+assert ( false ) ;
+}
+}
+table . must_insert ( slots [ i as usize ] ) ;
+proof {
+let idx = choose | idx : int | 0 <= idx < ss0 . len ( ) && ss0 [ idx ] == EMPTY && table . slots @ == # [ trigger ] ss0 . update ( idx , item ) ;
+assert ( pocc ( table . slots @ ) =~= pocc ( ss0 ) . insert ( idx ) ) ;
+assert ( ! pocc ( ss0 ) . contains ( idx ) ) ;
+assert forall | x : u32 | x != EMPTY implies ( # [ trigger ] pholds ( table . slots @ , x ) <==> ( exists | j : int | 0 <= j < i + 1 && slots @ [ j ] == x ) ) by {
+let ss1 = table . slots @ ;
+if pholds ( ss1 , x ) {
+let t = choose | t : int | 0 <= t < ss1 . len ( ) && ss1 [ t ] == x ;
+if t == idx {
+assert ( slots @ [ i as int ] == x ) ;
+}
+else {
+assert ( ss0 [ t ] == x ) ;
+assert ( pholds ( ss0 , x ) ) ;
+let j = choose | j : int | 0 <= j < i && slots @ [ j ] == x ;
+assert ( 0 <= j < i + 1 && slots @ [ j ] == x ) ;
+}
+}
+if exists | j : int | 0 <= j < i + 1 && slots @ [ j ] == x {
+let j = choose | j : int | 0 <= j < i + 1 && slots @ [ j ] == x ;
+if j == i {
+assert ( ss1 [ idx ] == x ) ;
+}
+else {
+assert ( pholds ( ss0 , x ) ) ;
+let t = choose | t : int | 0 <= t < ss0 . len ( ) && ss0 [ t ] == x ;
+assert ( t != idx ) ;
+assert ( ss1 [ t ] == x ) ;
+}
+}
+}
+}
+}
+table . num_items = num_items ;
+proof {
+assert forall | x : u32 | # [ trigger ] table . items ( ) . contains ( x ) <==> ( exists | i : int | 0 <= i < num_items && slots @ [ i ] == x ) by {
+if exists | i : int | 0 <= i < num_items && slots @ [ i ] == x {
+let i = choose | i : int | 0 <= i < num_items && slots @ [ i ] == x ;
+assert ( x != EMPTY ) ;
+}
+}
+}
+table }
 
-        let mut table = Self::new(lg_num_slots, 6 + lg_size);
-        proof {
-            assert(pocc(table.slots@) =~= Set::<int>::empty());
-        }
-
-        // Note: there is a possible "snowplow effect" here because the caller is passing in a
-        // sorted pairs array. However, we are starting out with the correct final table size, so
-        // the problem might not occur.
-
-        for i in 0..num_items
-          invariant
-            table.lg_size == lg_num_slots, table.num_valid_bits == 6 + lg_size, 4 <= lg_size <= 26,
-            ptbl_ok(table.slots@, table.num_valid_bits, table.lg_size), table.slots@.len() == pow2(lg_num_slots as nat),
-            pocc(table.slots@).len() == i, 4 * num_items <= 3 * pow2(lg_num_slots as nat), num_items <= slots@.len(),
-            forall|i: int| 0 <= i < num_items ==> slots@[i] != EMPTY && (#[trigger] slots@[i] as int) < pow2((6 + lg_size) as nat),
-            forall|i: int, j: int| 0 <= i < j < num_items ==> slots@[i] != slots@[j],
-            forall|x: u32| x != EMPTY ==> (#[trigger] pholds(table.slots@, x) <==> (exists|j: int| 0 <= j < i && slots@[j] == x)),
-        {
-            let ghost ss0 = table.slots@;
-            let ghost item = slots@[i as int];
-            proof {
-                if pholds(ss0, item) { let j = choose|j: int| 0 <= j < i && slots@[j] == item; assert(false); }
-            }
-            table.must_insert(slots[i as usize]);
-            proof {
-                let idx = choose|idx: int| 0 <= idx < ss0.len() && ss0[idx] == EMPTY && table.slots@ == #[trigger] ss0.update(idx, item);
-                assert(pocc(table.slots@) =~= pocc(ss0).insert(idx));
-                assert(!pocc(ss0).contains(idx));
-                assert forall|x: u32| x != EMPTY implies (#[trigger] pholds(table.slots@, x) <==> (exists|j: int| 0 <= j < i + 1 && slots@[j] == x)) by {
-                    let ss1 = table.slots@;
-                    if pholds(ss1, x) {
-                        let t = choose|t: int| 0 <= t < ss1.len() && ss1[t] == x;
-                        if t == idx { assert(slots@[i as int] == x); } else { assert(ss0[t] == x); assert(pholds(ss0, x)); let j = choose|j: int| 0 <= j < i && slots@[j] == x; assert(0 <= j < i + 1 && slots@[j] == x); }
-                    }
-                    if exists|j: int| 0 <= j < i + 1 && slots@[j] == x {
-                        let j = choose|j: int| 0 <= j < i + 1 && slots@[j] == x;
-                        if j == i { assert(ss1[idx] == x); } else { assert(pholds(ss0, x)); let t = choose|t: int| 0 <= t < ss0.len() && ss0[t] == x; assert(t != idx); assert(ss1[t] == x); }
-                    }
-                }
-            }
-        }
-        table.num_items = num_items;
-        proof {
-            assert forall|x: u32| #[trigger] table.items().contains(x) <==> (exists|i: int| 0 <= i < num_items && slots@[i] == x) by {
-                if exists|i: int| 0 <= i < num_items && slots@[i] == x { let i = choose|i: int| 0 <= i < num_items && slots@[i] == x; assert(x != EMPTY); }
-            }
-        }
-        table
-    }
 }
 
 // =====================================================================================================================
@@ -695,12 +687,8 @@ impl PairTable {
 // contracts/cpc_update.rs, over the real PairTable invariant above)
 // =====================================================================================================================
 enum Flavor {
-    Empty,   //    0  == C <    1
-    Sparse,  //    1  <= C <   3K/32
-    Hybrid,  // 3K/32 <= C <   K/2
-    Pinned,  //   K/2 <= C < 27K/8  [NB: 27/8 = 3 + 3/8]
-    Sliding, // 27K/8 <= C
-}
+Empty , Sparse , Hybrid , Pinned , Sliding , }
+
 spec fn flavor_spec(lg_k: u8, c: u32) -> Flavor {
     let k = pow2(lg_k as nat) as int; let c = c as int;
     if c == 0 { Flavor::Empty } else if 32 * c < 3 * k { Flavor::Sparse } else if 2 * c < k { Flavor::Hybrid } else if 8 * c < 27 * k { Flavor::Pinned } else { Flavor::Sliding }
@@ -708,24 +696,26 @@ spec fn flavor_spec(lg_k: u8, c: u32) -> Flavor {
 spec fn dco(lg_k: u8, c: u32) -> int { let k = pow2(lg_k as nat) as int; if 8 * (c as int) < 19 * k { 0 } else { (8 * (c as int) - 19 * k) / (8 * k) } }
 
 // real body; contract and proof as in contracts/cpc_update.rs
-fn determine_correct_offset(lg_k: u8, num_coupons: u32) -> (r: u8)
-  requires 4 <= lg_k <= 26
-  ensures dco(lg_k, num_coupons) <= 255 ==> r == dco(lg_k, num_coupons)
-{
-    proof {
-        lemma_shl_i64(lg_k); lemma_shl_i64((lg_k + 3) as u8); lemma_pow2_adds(3, lg_k as nat); lemma2_to64();
-        let c = num_coupons as i64;
-        assert(0 <= c <= 0xffff_ffff ==> (c << 3) == c * 8) by (bit_vector);
-    }
-    let k = 1 << lg_k;
-    let tmp = ((num_coupons as i64) << 3) - (19 * k); // 8C - 19K
-    if tmp < 0 {
-        0
-    } else {
-        proof { lemma_shr_i64(tmp, (lg_k + 3) as u8); }
-        (tmp >> (lg_k + 3)) as u8 // tmp / 8K
-    }
+fn determine_correct_offset ( lg_k : u8 , num_coupons : u32 ) -> ( r : u8 ) requires 4 <= lg_k <= 26 ensures dco ( lg_k , num_coupons ) <= 255 ==> r == dco ( lg_k , num_coupons ) {
+proof {
+lemma_shl_i64 ( lg_k ) ;
+lemma_shl_i64 ( ( lg_k + 3 ) as u8 ) ;
+lemma_pow2_adds ( 3 , lg_k as nat ) ;
+lemma2_to64 ( ) ;
+let c = num_coupons as i64 ;
+assert ( 0 <= c <= 0xffff_ffff ==> ( c << 3 ) == c * 8 ) by ( bit_vector ) ;
 }
+let k = 1 << lg_k ;
+let tmp = ( ( num_coupons as i64 ) << 3 ) - ( 19 * k ) ;
+if tmp < 0 {
+0 }
+else {
+proof {
+lemma_shr_i64 ( tmp , ( lg_k + 3 ) as u8 ) ;
+}
+( tmp >> ( lg_k + 3 ) ) as u8 }
+}
+
 proof fn lemma_shl_i64(l: u8) requires l <= 29 ensures (1i64 << l) == pow2(l as nat), 1 <= pow2(l as nat) <= 0x2000_0000 {
     lemma2_to64(); if l < 29 { lemma_pow2_strictly_increases(l as nat, 29); } lemma_pow2_pos(l as nat);
     let u = l as u64;
@@ -743,52 +733,19 @@ proof fn lemma_k_bound(l: u8) requires 4 <= l <= 26 ensures 16 <= pow2(l as nat)
 }
 
 struct CpcSketch {
-    // immutable config variables
-    lg_k: u8,
-    seed: u64,
-    seed_hash: u16,
+lg_k : u8 , seed : u64 , seed_hash : u16 , first_interesting_column : u8 , num_coupons : u32 , surprising_value_table : Option < PairTable > , window_offset : u8 , sliding_window : Vec < u8 > , merge_flag : bool , kxp : f64 , hip_est_accum : f64 , }
 
-    // sketch state
-    /// Part of a speed optimization.
-    first_interesting_column: u8,
-    /// The number of coupons collected so far.
-    num_coupons: u32,
-    /// Sparse and surprising values.
-    surprising_value_table: Option<PairTable>,
-    /// Derivable from num_coupons, but made explicit for speed.
-    window_offset: u8,
-    /// Size K bytes in dense mode (flavor >= HYBRID).
-    sliding_window: Vec<u8>,
-
-    // estimator state
-    /// Whether the sketch is a result of merging.
-    ///
-    /// If `false`, the HIP (Historical Inverse Probability) estimator is used.
-    /// If `true`, the ICON (Inter-Column Optimal) Estimator is fallback in use.
-    merge_flag: bool,
-    // the following variables are only valid in HIP estimator
-    /// A pre-calculated probability factor (`k * p`) used to compute the increment delta.
-    kxp: f64,
-    /// The accumulated cardinality estimate.
-    hip_est_accum: f64,
-}
 
 spec fn rc(row: int, col: int) -> u32 { ((row as u32) << 6) | (col as u32) }
 spec fn bit8(x: u8, c: int) -> bool { (x >> (c as u8)) & 1 == 1 }
 
 // cpc/compression.rs: the compressed state; its view
 struct CompressedState {
-    table_data: Vec<u32>,
-    table_data_words: usize,
-    // can be different from the number of entries in the sketch in hybrid mode
-    table_num_entries: u32,
-    window_data: Vec<u32>,
-    window_data_words: usize,
-}
+table_data : Vec < u32 > , table_data_words : usize , table_num_entries : u32 , window_data : Vec < u32 > , window_data_words : usize , }
+
 struct UncompressedState {
-    table: PairTable,
-    window: Vec<u8>,
-}
+table : PairTable , window : Vec < u8 > , }
+
 ghost struct CsView { table: Seq<u32>, table_words: int, num_entries: u32, window: Seq<u32>, window_words: int }
 spec fn cs_default() -> CsView { CsView { table: Seq::empty(), table_words: 0, num_entries: 0, window: Seq::empty(), window_words: 0 } }
 // what the compressor is ASSUMED to deliver (from its debug_asserts and the buffer discipline of low_level_compress_*):
@@ -875,27 +832,15 @@ fn uncompress_surprising_values(
 
 impl CompressedState {
     // the sparse arm of `uncompress`, real body: REACHED FROM deserialize; nothing is known of `self` but what the parser established (cs_of(bytes))
-    fn uncompress_sparse_flavor(&self, lg_k: u8) -> (r: UncompressedState)
-      requires 4 <= lg_k <= 26,
-        // the two debug_assert!s (= cs_flavor_ok for the sparse flavor; the parser does not establish it: C14.cpc.uncompress.flags_vs_flavor)
-        /*@C14.cpc.sparse.flags*/ self.window_data@.len() == 0 && self.table_data@.len() > 0,
-      ensures r.window@.len() == 0, r.table.wf(), r.table.num_valid_bits == 6 + lg_k, r.table.num_items == self.table_num_entries
-    {
-        debug_assert!(self.window_data.is_empty());
-        debug_assert!(!self.table_data.is_empty());
+    fn uncompress_sparse_flavor ( & self , lg_k : u8 ) -> ( r : UncompressedState ) requires 4 <= lg_k <= 26 ,
+/*@C14.cpc.sparse.flags*/ self . window_data @ . len ( ) == 0 && self . table_data @ . len ( ) > 0 , ensures r . window @ . len ( ) == 0 , r . table . wf ( ) , r . table . num_valid_bits == 6 + lg_k , r . table . num_items == self . table_num_entries {
+debug_assert! ( self . window_data . is_empty ( ) ) ;
+debug_assert! ( ! self . table_data . is_empty ( ) ) ;
+let pairs = uncompress_surprising_values ( & self . table_data , self . table_data_words , self . table_num_entries , lg_k , ) ;
+UncompressedState {
+table : PairTable :: from_slots ( lg_k , self . table_num_entries , pairs ) , window : vec! [ ] , }
+}
 
-        let pairs = uncompress_surprising_values(
-            &self.table_data,
-            self.table_data_words,
-            self.table_num_entries,
-            lg_k,
-        );
-
-        UncompressedState {
-            table: PairTable::from_slots(lg_k, self.table_num_entries, pairs),
-            window: vec![],
-        }
-    }
 }
 
 impl CpcSketch {
@@ -951,118 +896,147 @@ impl CpcSketch {
                  window: c.window.take(c.window_words), table: c.table.take(c.table_words) }
     }
 
-    fn is_empty(&self) -> (r: bool) ensures r == (self.num_coupons == 0) {
-        self.num_coupons == 0
-    }
+    fn is_empty ( & self ) -> ( r : bool ) ensures r == ( self . num_coupons == 0 ) {
+self . num_coupons == 0 }
 
-    fn write_hip(&self, bytes: &mut SketchBytes)
-      ensures final(bytes)@ == old(bytes)@ + (le64_bytes(f64_bits(self.kxp)) + le64_bytes(f64_bits(self.hip_est_accum)))
-    {
-        bytes.write_f64_le(self.kxp);
-        bytes.write_f64_le(self.hip_est_accum);
-        proof { assert(bytes@ =~= old(bytes)@ + (le64_bytes(f64_bits(self.kxp)) + le64_bytes(f64_bits(self.hip_est_accum)))); }
-    }
 
-    fn serialize(&self) -> (r: Vec<u8>)
-      requires self.wf_codec()
-      ensures
-        /*@C12.cpc.preamble*/ r@ == enc_cpc(self.img(compressed_of(*self))),
-        /*@C11.cpc.serialize_decodes*/ cpc_decode(r@) == Some(self.img(compressed_of(*self))),
-    {
-        let mut bytes = SketchBytes::with_capacity(256);
+    fn write_hip ( & self , bytes : & mut SketchBytes ) ensures final ( bytes ) @ == old ( bytes ) @ + ( le64_bytes ( f64_bits ( self . kxp ) ) + le64_bytes ( f64_bits ( self . hip_est_accum ) ) ) {
+bytes . write_f64_le ( self . kxp ) ;
+bytes . write_f64_le ( self . hip_est_accum ) ;
+proof {
+assert ( bytes @ =~= old ( bytes ) @ + ( le64_bytes ( f64_bits ( self . kxp ) ) + le64_bytes ( f64_bits ( self . hip_est_accum ) ) ) ) ;
+}
+}
 
-        let mut compressed = CompressedState::default();
-        compressed.compress(self);
-        let ghost c = compressed.cview();
-        let ghost v = self.img(c);
-        proof { lemma_k_bound(self.lg_k); }
 
-        let has_hip = !self.merge_flag;
-        let has_table = !compressed.table_data.is_empty();
-        let has_window = !compressed.window_data.is_empty();
-        let preamble_ints = make_preamble_ints(self.num_coupons, has_hip, has_table, has_window);
-        bytes.write_u8(preamble_ints);
-        bytes.write_u8(SERIAL_VERSION);
-        bytes.write_u8(Family::CPC.id);
-        bytes.write_u8(self.lg_k);
-        bytes.write_u8(self.first_interesting_column);
-        proof {
-            let h: u8 = if has_hip { 1 } else { 0 }; let t: u8 = if has_table { 1 } else { 0 }; let w: u8 = if has_window { 1 } else { 0 };
-            assert(h <= 1 && t <= 1 && w <= 1 ==> ((1u8 << 1u8) | (h << 2u8) | (t << 3u8) | (w << 4u8)) == 2 + 4 * h + 8 * t + 16 * w) by (bit_vector);
-        }
-        let flags = (1 << FLAG_COMPRESSED)
-            | (if has_hip { 1 } else { 0 } << FLAG_HAS_HIP)
-            | (if has_table { 1 } else { 0 } << FLAG_HAS_TABLE)
-            | (if has_window { 1 } else { 0 } << FLAG_HAS_WINDOW);
-        bytes.write_u8(flags);
-        debug_assert!(self.seed_hash == compute_seed_hash(self.seed));
-        bytes.write_u16_le(self.seed_hash);
-        proof { assert(bytes@ =~= enc_cpc_header(v)); }
-        let ghost h = bytes@;
-        if !self.is_empty() {
-            bytes.write_u32_le(self.num_coupons);
-            if has_table && has_window {
-                // if there is no window it is the same as number of coupons
-                bytes.write_u32_le(compressed.table_num_entries);
-                // HIP values can be in two different places in the sequence of fields
-                // this is the first HIP decision point
-                if has_hip {
-                    self.write_hip(&mut bytes);
-                }
-            }
-            proof { assert(bytes@ =~= h + (le32_bytes(v.num_coupons) + fp_sv(v) + fp_hip1(v))); }
-            if has_table {
-                debug_assert!(compressed.table_data_words <= u32::MAX as usize);
-                bytes.write_u32_le(compressed.table_data_words as u32);
-            }
-            if has_window {
-                debug_assert!(compressed.window_data_words <= u32::MAX as usize);
-                bytes.write_u32_le(compressed.window_data_words as u32);
-            }
-            // this is the second HIP decision point
-            if has_hip && !(has_table && has_window) {
-                self.write_hip(&mut bytes);
-            }
-            proof { assert(bytes@ =~= h + enc_cpc_fields(v)); }
-            let ghost hf = bytes@;
-            if has_window {
-                for i in 0..compressed.window_data_words
-                  invariant compressed.cview() == c, c.window_words <= c.window.len(), bytes@ == hf + enc_u32s(c.window.take(i as int)),
-                {
-                    bytes.write_u32_le(compressed.window_data[i]);
-                    proof {
-                        assert(c.window.take(i as int + 1) =~= c.window.take(i as int).push(c.window[i as int]));
-                        lemma_enc_u32s_push(c.window.take(i as int), c.window[i as int]);
-                        assert(bytes@ =~= hf + enc_u32s(c.window.take(i as int + 1)));
-                    }
-                }
-            } else {
-                proof { assert(c.window.take(0) =~= Seq::<u32>::empty()); assert(hf + enc_u32s(Seq::<u32>::empty()) =~= hf); }
-            }
-            let ghost hfw = bytes@;
-            if has_table {
-                for i in 0..compressed.table_data_words
-                  invariant compressed.cview() == c, c.table_words <= c.table.len(), bytes@ == hfw + enc_u32s(c.table.take(i as int)),
-                {
-                    bytes.write_u32_le(compressed.table_data[i]);
-                    proof {
-                        assert(c.table.take(i as int + 1) =~= c.table.take(i as int).push(c.table[i as int]));
-                        lemma_enc_u32s_push(c.table.take(i as int), c.table[i as int]);
-                        assert(bytes@ =~= hfw + enc_u32s(c.table.take(i as int + 1)));
-                    }
-                }
-            } else {
-                proof { assert(c.table.take(0) =~= Seq::<u32>::empty()); assert(hfw + enc_u32s(Seq::<u32>::empty()) =~= hfw); }
-            }
-            proof { assert(bytes@ =~= enc_cpc(v)); }
-        }
-        proof {
-            assert(bytes@ == enc_cpc(v));
-            assert(img_canon(v));
-            lemma_cpc_framing_roundtrip(v);
-        }
-        bytes.into_bytes()
-    }
+    fn serialize ( & self ) -> ( r : Vec < u8 > ) requires self . wf_codec ( ) ensures
+/*@C12.cpc.preamble*/ r @ == enc_cpc ( self . img ( compressed_of ( * self ) ) ) ,
+/*@C11.cpc.serialize_decodes*/ cpc_decode ( r @ ) == Some ( self . img ( compressed_of ( * self ) ) ) , {
+let mut bytes = SketchBytes :: with_capacity ( 256 ) ;
+let mut compressed = CompressedState :: default ( ) ;
+compressed . compress ( self ) ;
+let ghost c = compressed . cview ( ) ;
+let ghost v = self . img ( c ) ;
+proof {
+lemma_k_bound ( self . lg_k ) ;
+}
+let has_hip = ! self . merge_flag ;
+let has_table = ! compressed . table_data . is_empty ( ) ;
+let has_window = ! compressed . window_data . is_empty ( ) ;
+let preamble_ints = make_preamble_ints ( self . num_coupons , has_hip , has_table , has_window ) ;
+bytes . write_u8 ( preamble_ints ) ;
+bytes . write_u8 ( SERIAL_VERSION ) ;
+bytes . write_u8 ( Family :: CPC . id ) ;
+bytes . write_u8 ( self . lg_k ) ;
+bytes . write_u8 ( self . first_interesting_column ) ;
+proof {
+let h : u8 = if has_hip {
+1 }
+else {
+0 }
+;
+let t : u8 = if has_table {
+1 }
+else {
+0 }
+;
+let w : u8 = if has_window {
+1 }
+else {
+0 }
+;
+assert ( h <= 1 && t <= 1 && w <= 1 ==> ( ( 1u8 << 1u8 ) | ( h << 2u8 ) | ( t << 3u8 ) | ( w << 4u8 ) ) == 2 + 4 * h + 8 * t + 16 * w ) by ( bit_vector ) ;
+}
+let flags = ( 1 << FLAG_COMPRESSED ) | ( if has_hip {
+1 }
+else {
+0 }
+<< FLAG_HAS_HIP ) | ( if has_table {
+1 }
+else {
+0 }
+<< FLAG_HAS_TABLE ) | ( if has_window {
+1 }
+else {
+0 }
+<< FLAG_HAS_WINDOW ) ;
+bytes . write_u8 ( flags ) ;
+debug_assert! ( self . seed_hash == compute_seed_hash ( self . seed ) ) ;
+bytes . write_u16_le ( self . seed_hash ) ;
+proof {
+assert ( bytes @ =~= enc_cpc_header ( v ) ) ;
+}
+let ghost h = bytes @ ;
+if ! self . is_empty ( ) {
+bytes . write_u32_le ( self . num_coupons ) ;
+if has_table && has_window {
+bytes . write_u32_le ( compressed . table_num_entries ) ;
+if has_hip {
+self . write_hip ( & mut bytes ) ;
+}
+}
+proof {
+assert ( bytes @ =~= h + ( le32_bytes ( v . num_coupons ) + fp_sv ( v ) + fp_hip1 ( v ) ) ) ;
+}
+if has_table {
+debug_assert! ( compressed . table_data_words <= u32 :: MAX as usize ) ;
+bytes . write_u32_le ( compressed . table_data_words as u32 ) ;
+}
+if has_window {
+debug_assert! ( compressed . window_data_words <= u32 :: MAX as usize ) ;
+bytes . write_u32_le ( compressed . window_data_words as u32 ) ;
+}
+if has_hip && ! ( has_table && has_window ) {
+self . write_hip ( & mut bytes ) ;
+}
+proof {
+assert ( bytes @ =~= h + enc_cpc_fields ( v ) ) ;
+}
+let ghost hf = bytes @ ;
+if has_window {
+for i in 0 .. compressed . window_data_words invariant compressed . cview ( ) == c , c . window_words <= c . window . len ( ) , bytes @ == hf + enc_u32s ( c . window . take ( i as int ) ) , {
+bytes . write_u32_le ( compressed . window_data [ i ] ) ;
+proof {
+assert ( c . window . take ( i as int + 1 ) =~= c . window . take ( i as int ) . push ( c . window [ i as int ] ) ) ;
+lemma_enc_u32s_push ( c . window . take ( i as int ) , c . window [ i as int ] ) ;
+assert ( bytes @ =~= hf + enc_u32s ( c . window . take ( i as int + 1 ) ) ) ;
+}
+}
+}
+else {
+proof {
+assert ( c . window . take ( 0 ) =~= Seq :: < u32 > :: empty ( ) ) ;
+assert ( hf + enc_u32s ( Seq :: < u32 > :: empty ( ) ) =~= hf ) ;
+}
+}
+let ghost hfw = bytes @ ;
+if has_table {
+for i in 0 .. compressed . table_data_words invariant compressed . cview ( ) == c , c . table_words <= c . table . len ( ) , bytes @ == hfw + enc_u32s ( c . table . take ( i as int ) ) , {
+bytes . write_u32_le ( compressed . table_data [ i ] ) ;
+proof {
+assert ( c . table . take ( i as int + 1 ) =~= c . table . take ( i as int ) . push ( c . table [ i as int ] ) ) ;
+lemma_enc_u32s_push ( c . table . take ( i as int ) , c . table [ i as int ] ) ;
+assert ( bytes @ =~= hfw + enc_u32s ( c . table . take ( i as int + 1 ) ) ) ;
+}
+}
+}
+else {
+proof {
+assert ( c . table . take ( 0 ) =~= Seq :: < u32 > :: empty ( ) ) ;
+assert ( hfw + enc_u32s ( Seq :: < u32 > :: empty ( ) ) =~= hfw ) ;
+}
+}
+proof {
+assert ( bytes @ =~= enc_cpc ( v ) ) ;
+}
+}
+proof {
+assert ( bytes @ == enc_cpc ( v ) ) ;
+assert ( img_canon ( v ) ) ;
+lemma_cpc_framing_roundtrip ( v ) ;
+}
+bytes . into_bytes ( ) }
+
 }
 
 
@@ -1074,7 +1048,14 @@ spec fn cpc_pre_ints_as_checked(b: Seq<u8>) -> bool { b[0] == pre_ints_spec(fld_
 spec fn cpc_hdr_ok(b: Seq<u8>) -> bool { cpc_magic_ok(b) && cpc_pre_len_ok(b) && cpc_ranges_ok(b) && cpc_pre_ints_as_checked(b) }
 ghost struct CpcHdr { lg_k: u8, merge_flag: bool, num_coupons: u32, hip_est_accum: f64 }
 spec fn hip_value(b: Seq<u8>) -> f64 { if hip_present(b) { f64_of_bits(fld_hip_bits(b)) } else { 0.0f64 } }
-spec fn kxp_value(b: Seq<u8>) -> f64 { if hip_present(b) { f64_of_bits(fld_kxp_bits(b)) } else { 0.0f64 } }
+// kxp as read from the image (0.0 when the image carries no HIP fields) ...
+spec fn kxp_read(b: Seq<u8>) -> f64 { if hip_present(b) { f64_of_bits(fld_kxp_bits(b)) } else { 0.0f64 } }
+// ... and as delivered: an image without table and window fields stores no kxp, the reader restores the value of a fresh sketch
+uninterp spec fn kxp_fresh(lg_k: u8) -> f64;      // (1 << lg_k) as f64
+spec fn kxp_value(b: Seq<u8>) -> f64 { if f_nonempty(b) { kxp_read(b) } else { kxp_fresh(b[3]) } }
+// R15 float leaf: `(1u64 << lg_k) as f64` (shim body is the original expression)
+#[verifier::external_body]
+fn vx_kxp_fresh(lg_k: u8) -> (r: f64) requires lg_k < 64 ensures r == kxp_fresh(lg_k) { (1u64 << lg_k) as f64 }
 spec fn cpc_header_spec(b: Seq<u8>) -> Option<CpcHdr> {
     if cpc_hdr_ok(b) { Some(CpcHdr { lg_k: b[3], merge_flag: !f_hip(b), num_coupons: fld_num_coupons(b), hip_est_accum: hip_value(b) }) } else { None }
 }
@@ -1090,239 +1071,244 @@ proof fn lemma_flag_masks()
 impl CpcSketch {
     spec fn hdr(&self) -> CpcHdr { CpcHdr { lg_k: self.lg_k, merge_flag: self.merge_flag, num_coupons: self.num_coupons, hip_est_accum: self.hip_est_accum } }
 
-    fn deserialize(bytes: &[u8]) -> (r: Result<Self, Error>)
-      requires seed_hash_spec(DEFAULT_UPDATE_SEED) != 0     // a fact about the constant 9001, not about the bytes
-      ensures
-        /*@C13.cpc.default_seed*/ r matches Ok(s) ==> s.seed == DEFAULT_UPDATE_SEED && cpc_header_spec(bytes@) == Some(s.hdr()),
-    {
-        Self::deserialize_with_seed(bytes, DEFAULT_UPDATE_SEED)
-    }
+    fn deserialize ( bytes : & [ u8 ] ) -> ( r : Result < Self , Error > ) requires seed_hash_spec ( DEFAULT_UPDATE_SEED ) != 0 ensures
+/*@C13.cpc.default_seed*/ r matches Ok ( s ) ==> s . seed == DEFAULT_UPDATE_SEED && cpc_header_spec ( bytes @ ) == Some ( s . hdr ( ) ) , {
+Self :: deserialize_with_seed ( bytes , DEFAULT_UPDATE_SEED ) }
 
-    fn deserialize_with_seed(bytes: &[u8], seed: u64) -> (r: Result<Self, Error>)
-      requires seed_hash_spec(seed) != 0     // documented panic of compute_seed_hash on the caller's seed; nothing is assumed of the BYTES
-      ensures
-        /*@C14.cpc.rejects_magic*/ r is Ok ==> cpc_magic_ok(bytes@),
-        /*@C14.cpc.rejects_truncated*/ r is Ok ==> cpc_pre_len_ok(bytes@) && cpc_payload_ok(bytes@),
-        /*@C14.cpc.rejects_ranges*/ r is Ok ==> cpc_ranges_ok(bytes@),
-        /*@C14.cpc.rejects_seed*/ r is Ok ==> fld_seed_hash(bytes@) == seed_hash_spec(seed),
-        /*@C13.cpc.pre_ints_as_checked*/ r is Ok ==> cpc_pre_ints_as_checked(bytes@),
-        /*@C13.cpc.decodes*/ r is Ok && cpc_nonempty_ok(bytes@) ==> cpc_decode(bytes@) is Some,
-        /*@C13.cpc.fields*/ r matches Ok(s) ==> s.lg_k == bytes@[3] && s.first_interesting_column == bytes@[4] && s.seed_hash == fld_seed_hash(bytes@) && s.seed == seed
-            && s.num_coupons == fld_num_coupons(bytes@) && s.merge_flag == !f_hip(bytes@),
-        /*@C13.cpc.hip*/ r matches Ok(s) ==> s.kxp == kxp_value(bytes@) && s.hip_est_accum == hip_value(bytes@),
-        /*@C13.cpc.hip_bits*/ r matches Ok(s) ==> hip_present(bytes@) ==> f64_bits(s.kxp) == fld_kxp_bits(bytes@) && f64_bits(s.hip_est_accum) == fld_hip_bits(bytes@),
-        /*@C13.cpc.payload*/ r matches Ok(s) ==> s.surprising_value_table is Some && ({ let u = uncompressed_of(cs_of(bytes@), s.lg_k, s.num_coupons);
-              s.surprising_value_table->0 == u.table && s.sliding_window == u.window }),
-        /*@C13.cpc.header_spec*/ r matches Ok(s) ==> cpc_header_spec(bytes@) == Some(s.hdr()),
-        /*@C13.cpc.accepts*/ cpc_accepts(bytes@, seed) ==> r is Ok,
-        /*@C13.cpc.delivers*/ r matches Ok(s) ==> deser_delivers(bytes@, seed, s),
-        /*@C14.cpc.wf.lgk*/ r matches Ok(s) ==> s.wf_lgk(),
-        /*@C14.cpc.wf.window_len*/ r matches Ok(s) ==> s.wf_window_len(),
-        /*@C14.cpc.wf.table*/ r matches Ok(s) ==> s.wf_table(),
-        /*@C14.cpc.wf.rows*/ r matches Ok(s) ==> s.wf_rows(),
-        /*@C14.cpc.wf.empty*/ r matches Ok(s) ==> s.wf_empty(),
-        /*@C14.cpc.wf.nvb*/ r matches Ok(s) ==> s.wf_nvb(),
-        /*@C14.cpc.wf.windowed*/ r matches Ok(s) ==> (s.windowed() <==> 32 * (s.num_coupons as int) >= 3 * s.k()),
-        /*@C13.cpc.offset*/ r matches Ok(s) ==> (dco(s.lg_k, s.num_coupons) <= 255 ==> s.window_offset == dco(s.lg_k, s.num_coupons)),
-        /*@C13.cpc.sparse_entries*/ r matches Ok(s) ==> (flavor_spec(s.lg_k, s.num_coupons) is Sparse ==> s.surprising_value_table->0.num_items == fld_num_sv(bytes@)),
-        /*@C13.cpc.window_cols*/ r matches Ok(s) ==> (dco(s.lg_k, s.num_coupons) <= 56 ==> s.wf_window_cols()),
-    {
-        let ghost b = bytes@;
-        let ghost mut pos: int = 0;
-        proof { lemma_flag_masks(); }
-        let mut cursor = SketchSlice::new(bytes);
-        let preamble_ints = cursor
-            .read_u8()
-            .vx_io("preamble_ints")?;
-        proof { lemma_read(b, pos, 1); pos = pos + 1; }
-        let serial_version = cursor
-            .read_u8()
-            .vx_io("serial_version")?;
-        proof { lemma_read(b, pos, 1); pos = pos + 1; }
-        let family_id = cursor.read_u8().vx_io("family_id")?;
-        proof { lemma_read(b, pos, 1); pos = pos + 1; }
-        Family::CPC.validate_id(family_id)?;
-        ensure_serial_version_is(SERIAL_VERSION, serial_version)?;
 
-        let lg_k = cursor.read_u8().vx_io("lg_k")?;
-        proof { lemma_read(b, pos, 1); pos = pos + 1; }
-        let first_interesting_column = cursor
-            .read_u8()
-            .vx_io("first_interesting_column")?;
-        proof { lemma_read(b, pos, 1); pos = pos + 1; }
+    fn deserialize_with_seed ( bytes : & [ u8 ] , seed : u64 ) -> ( r : Result < Self , Error > ) requires seed_hash_spec ( seed ) != 0 ensures
+/*@C14.cpc.rejects_magic*/ r is Ok ==> cpc_magic_ok ( bytes @ ) ,
+/*@C14.cpc.rejects_truncated*/ r is Ok ==> cpc_pre_len_ok ( bytes @ ) && cpc_payload_ok ( bytes @ ) ,
+/*@C14.cpc.rejects_ranges*/ r is Ok ==> cpc_ranges_ok ( bytes @ ) ,
+/*@C14.cpc.rejects_seed*/ r is Ok ==> fld_seed_hash ( bytes @ ) == seed_hash_spec ( seed ) ,
+/*@C13.cpc.pre_ints_as_checked*/ r is Ok ==> cpc_pre_ints_as_checked ( bytes @ ) ,
+/*@C13.cpc.decodes*/ r is Ok && cpc_nonempty_ok ( bytes @ ) ==> cpc_decode ( bytes @ ) is Some ,
+/*@C13.cpc.fields*/ r matches Ok ( s ) ==> s . lg_k == bytes @ [ 3 ] && s . first_interesting_column == bytes @ [ 4 ] && s . seed_hash == fld_seed_hash ( bytes @ ) && s . seed == seed && s . num_coupons == fld_num_coupons ( bytes @ ) && s . merge_flag == ! f_hip ( bytes @ ) ,
+/*@C13.cpc.hip*/ r matches Ok ( s ) ==> s . kxp == kxp_value ( bytes @ ) && s . hip_est_accum == hip_value ( bytes @ ) ,
+/*@C13.cpc.hip_bits*/ r matches Ok ( s ) ==> hip_present ( bytes @ ) ==> f64_bits ( s . kxp ) == fld_kxp_bits ( bytes @ ) && f64_bits ( s . hip_est_accum ) == fld_hip_bits ( bytes @ ) ,
+/*@C13.cpc.payload*/ r matches Ok ( s ) ==> s . surprising_value_table is Some && ( {
+let u = uncompressed_of ( cs_of ( bytes @ ) , s . lg_k , s . num_coupons ) ;
+s . surprising_value_table -> 0 == u . table && s . sliding_window == u . window }
+) ,
+/*@C13.cpc.header_spec*/ r matches Ok ( s ) ==> cpc_header_spec ( bytes @ ) == Some ( s . hdr ( ) ) ,
+/*@C13.cpc.accepts*/ cpc_accepts ( bytes @ , seed ) ==> r is Ok ,
+/*@C13.cpc.delivers*/ r matches Ok ( s ) ==> deser_delivers ( bytes @ , seed , s ) ,
+/*@C14.cpc.wf.lgk*/ r matches Ok ( s ) ==> s . wf_lgk ( ) ,
+/*@C14.cpc.wf.window_len*/ r matches Ok ( s ) ==> s . wf_window_len ( ) ,
+/*@C14.cpc.wf.table*/ r matches Ok ( s ) ==> s . wf_table ( ) ,
+/*@C14.cpc.wf.rows*/ r matches Ok ( s ) ==> s . wf_rows ( ) ,
+/*@C14.cpc.wf.empty*/ r matches Ok ( s ) ==> s . wf_empty ( ) ,
+/*@C14.cpc.wf.nvb*/ r matches Ok ( s ) ==> s . wf_nvb ( ) ,
+/*@C14.cpc.wf.windowed*/ r matches Ok ( s ) ==> ( s . windowed ( ) <==> 32 * ( s . num_coupons as int ) >= 3 * s . k ( ) ) ,
+/*@C13.cpc.offset*/ r matches Ok ( s ) ==> ( dco ( s . lg_k , s . num_coupons ) <= 255 ==> s . window_offset == dco ( s . lg_k , s . num_coupons ) ) ,
+/*@C13.cpc.sparse_entries*/ r matches Ok ( s ) ==> ( flavor_spec ( s . lg_k , s . num_coupons ) is Sparse ==> s . surprising_value_table -> 0 . num_items == fld_num_sv ( bytes @ ) ) ,
+/*@C13.cpc.window_cols*/ r matches Ok ( s ) ==> ( dco ( s . lg_k , s . num_coupons ) <= 56 ==> s . wf_window_cols ( ) ) , {
+let ghost b = bytes @ ;
+let ghost mut pos : int = 0 ;
+proof {
+lemma_flag_masks ( ) ;
+}
+let mut cursor = SketchSlice :: new ( bytes ) ;
+let preamble_ints = cursor . read_u8 ( ) . vx_io ( "preamble_ints" ) ? ;
+proof {
+lemma_read ( b , pos , 1 ) ;
+pos = pos + 1 ;
+}
+let serial_version = cursor . read_u8 ( ) . vx_io ( "serial_version" ) ? ;
+proof {
+lemma_read ( b , pos , 1 ) ;
+pos = pos + 1 ;
+}
+let family_id = cursor . read_u8 ( ) . vx_io ( "family_id" ) ? ;
+proof {
+lemma_read ( b , pos , 1 ) ;
+pos = pos + 1 ;
+}
+Family :: CPC . validate_id ( family_id ) ? ;
+ensure_serial_version_is ( SERIAL_VERSION , serial_version ) ? ;
+let lg_k = cursor . read_u8 ( ) . vx_io ( "lg_k" ) ? ;
+proof {
+lemma_read ( b , pos , 1 ) ;
+pos = pos + 1 ;
+}
+let first_interesting_column = cursor . read_u8 ( ) . vx_io ( "first_interesting_column" ) ? ;
+proof {
+lemma_read ( b , pos , 1 ) ;
+pos = pos + 1 ;
+}
+let flags = cursor . read_u8 ( ) . vx_io ( "flags" ) ? ;
+proof {
+lemma_read ( b , pos , 1 ) ;
+pos = pos + 1 ;
+}
+let seed_hash = cursor . read_u16_le ( ) . vx_io ( "seed_hash" ) ? ;
+proof {
+lemma_read ( b , pos , 2 ) ;
+pos = pos + 2 ;
+}
+let is_compressed = flags & ( 1 << FLAG_COMPRESSED ) != 0 ;
+if ! is_compressed {
+return Err ( Error :: new ( ErrorKind :: InvalidData , "only compressed sketches are supported" , ) ) ;
+}
+let has_hip = flags & ( 1 << FLAG_HAS_HIP ) != 0 ;
+let has_table = flags & ( 1 << FLAG_HAS_TABLE ) != 0 ;
+let has_window = flags & ( 1 << FLAG_HAS_WINDOW ) != 0 ;
+proof {
+assert ( has_hip == f_hip ( b ) && has_table == f_table ( b ) && has_window == f_window ( b ) && f_compressed ( b ) ) ;
+}
+let mut compressed = CompressedState :: default ( ) ;
+let mut num_coupons = 0 ;
+let mut kxp = 0.0 ;
+let mut hip_est_accum = 0.0 ;
+if has_table || has_window {
+num_coupons = cursor . read_u32_le ( ) . vx_io ( "num_coupons" ) ? ;
+proof {
+lemma_read ( b , pos , 4 ) ;
+pos = pos + 4 ;
+}
+if has_table && has_window {
+compressed . table_num_entries = cursor . read_u32_le ( ) . vx_io ( "table_num_entries" ) ? ;
+proof {
+lemma_read ( b , pos , 4 ) ;
+pos = pos + 4 ;
+}
+if has_hip {
+kxp = cursor . read_f64_le ( ) . vx_io ( "kxp" ) ? ;
+proof {
+lemma_read ( b , pos , 8 ) ;
+pos = pos + 8 ;
+}
+hip_est_accum = cursor . read_f64_le ( ) . vx_io ( "hip_est_accum" ) ? ;
+proof {
+lemma_read ( b , pos , 8 ) ;
+pos = pos + 8 ;
+}
+}
+}
+proof {
+assert ( pos == off_svlen ( b ) ) ;
+}
+if has_table {
+compressed . table_data_words = cursor . read_u32_le ( ) . vx_io ( "table_data_words" ) ? as usize ;
+proof {
+lemma_read ( b , pos , 4 ) ;
+pos = pos + 4 ;
+}
+}
+if has_window {
+compressed . window_data_words = cursor . read_u32_le ( ) . vx_io ( "window_data_words" ) ? as usize ;
+proof {
+lemma_read ( b , pos , 4 ) ;
+pos = pos + 4 ;
+}
+}
+proof {
+assert ( pos == off_hip2 ( b ) ) ;
+}
+if has_hip && ! ( has_table && has_window ) {
+kxp = cursor . read_f64_le ( ) . vx_io ( "kxp" ) ? ;
+proof {
+lemma_read ( b , pos , 8 ) ;
+pos = pos + 8 ;
+}
+hip_est_accum = cursor . read_f64_le ( ) . vx_io ( "hip_est_accum" ) ? ;
+proof {
+lemma_read ( b , pos , 8 ) ;
+pos = pos + 8 ;
+}
+}
+proof {
+assert ( pos == pre_end ( b ) ) ;
+assert ( compressed . window_data_words == fld_w_len ( b ) && compressed . table_data_words == fld_sv_len ( b ) ) ;
+assert ( kxp == kxp_read ( b ) && hip_est_accum == hip_value ( b ) ) ;
+}
+let ghost pe = pos ;
+let ghost ww = compressed . window_data_words as int ;
+let ghost tw = compressed . table_data_words as int ;
+let ghost c0 = compressed ;
+if has_window {
+for vx_u1 in 0 .. compressed . window_data_words invariant b == bytes @ , pe == pre_end ( b ) , ww == fld_w_len ( b ) , tw == fld_sv_len ( b ) , 0 <= pe , pe + 4 * vx_u1 <= b . len ( ) , cursor . rem ( ) == b . skip ( pe + 4 * vx_u1 ) , compressed . window_data_words == ww , compressed . table_data_words == tw , compressed . table_num_entries == c0 . table_num_entries , compressed . table_data @ == c0 . table_data @ ,
+/*@C14.cpc.alloc_words*/ compressed . window_data @ . len ( ) == vx_u1 , compressed . window_data @ == dec_u32s ( b . skip ( pe ) , vx_u1 as int ) , {
+let word = cursor . read_u32_le ( ) . vx_io ( "window_data" ) ? ;
+proof {
+lemma_read ( b , pe + 4 * vx_u1 , 4 ) ;
+lemma_word_at ( b , pe , vx_u1 as int ) ;
+lemma_dec_u32s_push ( b . skip ( pe ) , vx_u1 as int ) ;
+}
+compressed . window_data . push ( word ) ;
+}
+proof {
+pos = pe + 4 * ww ;
+}
+}
+proof {
+assert ( compressed . window_data @ =~= fld_window ( b ) ) ;
+}
+let ghost pw = pos ;
+if has_table {
+for vx_u2 in 0 .. compressed . table_data_words invariant b == bytes @ , pe == pre_end ( b ) , ww == fld_w_len ( b ) , tw == fld_sv_len ( b ) , pw == pe + 4 * ww , 0 <= pw , pw + 4 * vx_u2 <= b . len ( ) , cursor . rem ( ) == b . skip ( pw + 4 * vx_u2 ) , compressed . window_data_words == ww , compressed . table_data_words == tw , compressed . table_num_entries == c0 . table_num_entries , compressed . window_data @ == fld_window ( b ) ,
+/*@C14.cpc.alloc_words*/ compressed . table_data @ . len ( ) == vx_u2 , compressed . table_data @ == dec_u32s ( b . skip ( pw ) , vx_u2 as int ) , {
+let word = cursor . read_u32_le ( ) . vx_io ( "table_data" ) ? ;
+proof {
+lemma_read ( b , pw + 4 * vx_u2 , 4 ) ;
+lemma_word_at ( b , pw , vx_u2 as int ) ;
+lemma_dec_u32s_push ( b . skip ( pw ) , vx_u2 as int ) ;
+}
+compressed . table_data . push ( word ) ;
+}
+proof {
+pos = pw + 4 * tw ;
+}
+}
+proof {
+assert ( compressed . table_data @ =~= fld_table ( b ) ) ;
+}
+if ! has_window {
+compressed . table_num_entries = num_coupons ;
+}
+}
+else {
+proof {
+assert ( compressed . window_data @ =~= fld_window ( b ) ) ;
+assert ( compressed . table_data @ =~= fld_table ( b ) ) ;
+}
+}
+proof {
+assert ( compressed . cview ( ) == cs_of ( b ) ) ;
+assert (
+/*@C14.cpc.alloc_words*/ 4 * ( compressed . window_data @ . len ( ) + compressed . table_data @ . len ( ) ) <= b . len ( ) ) ;
+}
+let expected_preamble_ints = make_preamble_ints ( num_coupons , has_hip , has_table , has_window ) ;
+ensure_preamble_longs_in ( & [ expected_preamble_ints ] , preamble_ints ) ? ;
+if seed_hash != compute_seed_hash ( seed ) {
+return Err ( Error :: new ( ErrorKind :: InvalidData , format! ( "seed hash mismatch: expected {}, got {}" , compute_seed_hash ( seed ) , seed_hash ) , ) ) ;
+}
+if ! ( MIN_LG_K ..= MAX_LG_K ) . contains ( & lg_k ) {
+return Err ( Error :: invalid_argument ( format! ( "lg_k out of range; got {}" , lg_k ) ) ) ;
+}
+if first_interesting_column > 63 {
+return Err ( Error :: invalid_argument ( format! ( "first_interesting_column out of range; got {}" , first_interesting_column ) ) ) ;
+}
+proof {
+lemma_k_bound ( lg_k ) ;
+if hip_present ( b ) {
+axiom_f64_bits_roundtrip ( fld_kxp_bits ( b ) ) ;
+axiom_f64_bits_roundtrip ( fld_hip_bits ( b ) ) ;
+}
+}
+let uncompressed = compressed . uncompress ( lg_k , num_coupons ) ;
+proof {
+lemma_table_rows ( uncompressed . table , lg_k ) ;
+lemma_dco_small ( lg_k , num_coupons ) ;
+}
+Ok ( CpcSketch {
+lg_k , seed , seed_hash , first_interesting_column , num_coupons , surprising_value_table : Some ( uncompressed . table ) , window_offset : determine_correct_offset ( lg_k , num_coupons ) , sliding_window : uncompressed . window , merge_flag : ! has_hip , kxp : if has_table || has_window {
+kxp }
+else {
+vx_kxp_fresh ( lg_k ) }
+, hip_est_accum , }
+) }
 
-        let flags = cursor.read_u8().vx_io("flags")?;
-        proof { lemma_read(b, pos, 1); pos = pos + 1; }
-        let seed_hash = cursor
-            .read_u16_le()
-            .vx_io("seed_hash")?;
-        proof { lemma_read(b, pos, 2); pos = pos + 2; }
-        let is_compressed = flags & (1 << FLAG_COMPRESSED) != 0;
-        if !is_compressed {
-            return Err(Error::new(
-                ErrorKind::InvalidData,
-                "only compressed sketches are supported",
-            ));
-        }
-        let has_hip = flags & (1 << FLAG_HAS_HIP) != 0;
-        let has_table = flags & (1 << FLAG_HAS_TABLE) != 0;
-        let has_window = flags & (1 << FLAG_HAS_WINDOW) != 0;
-        proof { assert(has_hip == f_hip(b) && has_table == f_table(b) && has_window == f_window(b) && f_compressed(b)); }
-
-        let mut compressed = CompressedState::default();
-        let mut num_coupons = 0;
-        let mut kxp = 0.0;
-        let mut hip_est_accum = 0.0;
-
-        if has_table || has_window {
-            num_coupons = cursor
-                .read_u32_le()
-                .vx_io("num_coupons")?;
-            proof { lemma_read(b, pos, 4); pos = pos + 4; }
-            if has_table && has_window {
-                compressed.table_num_entries = cursor
-                    .read_u32_le()
-                    .vx_io("table_num_entries")?;
-                proof { lemma_read(b, pos, 4); pos = pos + 4; }
-                if has_hip {
-                    kxp = cursor.read_f64_le().vx_io("kxp")?;
-                    proof { lemma_read(b, pos, 8); pos = pos + 8; }
-                    hip_est_accum = cursor
-                        .read_f64_le()
-                        .vx_io("hip_est_accum")?;
-                    proof { lemma_read(b, pos, 8); pos = pos + 8; }
-                }
-            }
-            proof { assert(pos == off_svlen(b)); }
-            if has_table {
-                compressed.table_data_words = cursor
-                    .read_u32_le()
-                    .vx_io("table_data_words")?
-                    as usize;
-                proof { lemma_read(b, pos, 4); pos = pos + 4; }
-            }
-            if has_window {
-                compressed.window_data_words = cursor
-                    .read_u32_le()
-                    .vx_io("window_data_words")?
-                    as usize;
-                proof { lemma_read(b, pos, 4); pos = pos + 4; }
-            }
-            proof { assert(pos == off_hip2(b)); }
-            if has_hip && !(has_table && has_window) {
-                kxp = cursor.read_f64_le().vx_io("kxp")?;
-                proof { lemma_read(b, pos, 8); pos = pos + 8; }
-                hip_est_accum = cursor
-                    .read_f64_le()
-                    .vx_io("hip_est_accum")?;
-                proof { lemma_read(b, pos, 8); pos = pos + 8; }
-            }
-            proof {
-                assert(pos == pre_end(b));
-                assert(compressed.window_data_words == fld_w_len(b) && compressed.table_data_words == fld_sv_len(b));
-                assert(kxp == kxp_value(b) && hip_est_accum == hip_value(b));
-            }
-            let ghost pe = pos;
-            let ghost ww = compressed.window_data_words as int;
-            let ghost tw = compressed.table_data_words as int;
-            let ghost c0 = compressed;
-            if has_window {
-                for vx_u1 in 0..compressed.window_data_words
-                  invariant
-                    b == bytes@, pe == pre_end(b), ww == fld_w_len(b), tw == fld_sv_len(b), 0 <= pe, pe + 4 * vx_u1 <= b.len(),
-                    cursor.rem() == b.skip(pe + 4 * vx_u1),
-                    compressed.window_data_words == ww, compressed.table_data_words == tw, compressed.table_num_entries == c0.table_num_entries,
-                    compressed.table_data@ == c0.table_data@,
-                    /*@C14.cpc.alloc_words*/ compressed.window_data@.len() == vx_u1,
-                    compressed.window_data@ == dec_u32s(b.skip(pe), vx_u1 as int),
-                {
-                    let word = cursor
-                        .read_u32_le()
-                        .vx_io("window_data")?;
-                    proof { lemma_read(b, pe + 4 * vx_u1, 4); lemma_word_at(b, pe, vx_u1 as int); lemma_dec_u32s_push(b.skip(pe), vx_u1 as int); }
-                    compressed.window_data.push(word);
-                }
-                proof { pos = pe + 4 * ww; }
-            }
-            proof { assert(compressed.window_data@ =~= fld_window(b)); }
-            let ghost pw = pos;
-            if has_table {
-                for vx_u2 in 0..compressed.table_data_words
-                  invariant
-                    b == bytes@, pe == pre_end(b), ww == fld_w_len(b), tw == fld_sv_len(b), pw == pe + 4 * ww, 0 <= pw, pw + 4 * vx_u2 <= b.len(),
-                    cursor.rem() == b.skip(pw + 4 * vx_u2),
-                    compressed.window_data_words == ww, compressed.table_data_words == tw, compressed.table_num_entries == c0.table_num_entries,
-                    compressed.window_data@ == fld_window(b),
-                    /*@C14.cpc.alloc_words*/ compressed.table_data@.len() == vx_u2,
-                    compressed.table_data@ == dec_u32s(b.skip(pw), vx_u2 as int),
-                {
-                    let word = cursor
-                        .read_u32_le()
-                        .vx_io("table_data")?;
-                    proof { lemma_read(b, pw + 4 * vx_u2, 4); lemma_word_at(b, pw, vx_u2 as int); lemma_dec_u32s_push(b.skip(pw), vx_u2 as int); }
-                    compressed.table_data.push(word);
-                }
-                proof { pos = pw + 4 * tw; }
-            }
-            proof { assert(compressed.table_data@ =~= fld_table(b)); }
-            if !has_window {
-                compressed.table_num_entries = num_coupons;
-            }
-        } else {
-            proof { assert(compressed.window_data@ =~= fld_window(b)); assert(compressed.table_data@ =~= fld_table(b)); }
-        }
-        proof {
-            assert(compressed.cview() == cs_of(b));
-            // pushes are paid for by input bytes: no allocation is driven by svLengthInts / wLengthInts alone
-            assert(/*@C14.cpc.alloc_words*/ 4 * (compressed.window_data@.len() + compressed.table_data@.len()) <= b.len());
-        }
-
-        let expected_preamble_ints =
-            make_preamble_ints(num_coupons, has_hip, has_table, has_window);
-        ensure_preamble_longs_in(&[expected_preamble_ints], preamble_ints)?;
-        if seed_hash != compute_seed_hash(seed) {
-            return Err(Error::new(
-                ErrorKind::InvalidData,
-                format!(
-                    "seed hash mismatch: expected {}, got {}",
-                    compute_seed_hash(seed),
-                    seed_hash
-                ),
-            ));
-        }
-        if !(MIN_LG_K..=MAX_LG_K).contains(&lg_k) {
-            return Err(Error::invalid_argument(format!(
-                "lg_k out of range; got {}",
-                lg_k
-            )));
-        }
-        if first_interesting_column > 63 {
-            return Err(Error::invalid_argument(format!(
-                "first_interesting_column out of range; got {}",
-                first_interesting_column
-            )));
-        }
-        proof {
-            lemma_k_bound(lg_k);
-            if hip_present(b) { axiom_f64_bits_roundtrip(fld_kxp_bits(b)); axiom_f64_bits_roundtrip(fld_hip_bits(b)); }
-        }
-
-        let uncompressed = compressed.uncompress(lg_k, num_coupons);
-        proof { lemma_table_rows(uncompressed.table, lg_k); lemma_dco_small(lg_k, num_coupons); }
-        Ok(CpcSketch {
-            lg_k,
-            seed,
-            seed_hash,
-            first_interesting_column,
-            num_coupons,
-            surprising_value_table: Some(uncompressed.table),
-            window_offset: determine_correct_offset(lg_k, num_coupons),
-            sliding_window: uncompressed.window,
-            merge_flag: !has_hip,
-            kxp,
-            hip_est_accum,
-        })
-    }
 }
 
 // a well-formed table of 6 + lg_k valid bits only holds rows below k
@@ -1365,132 +1351,145 @@ proof fn lemma_dco_small(lg_k: u8, c: u32)
 // cpc/wrapper.rs
 // =====================================================================================================================
 struct CpcWrapper {
-    lg_k: u8,
-    merge_flag: bool,
-    num_coupons: u32,
-    hip_est_accum: f64,
-}
+lg_k : u8 , merge_flag : bool , num_coupons : u32 , hip_est_accum : f64 , }
+
 
 impl CpcWrapper {
     spec fn hdr(&self) -> CpcHdr { CpcHdr { lg_k: self.lg_k, merge_flag: self.merge_flag, num_coupons: self.num_coupons, hip_est_accum: self.hip_est_accum } }
 
-    fn new(bytes: &[u8]) -> (r: Result<Self, Error>)
-      ensures
-        /*@C13.cpc.wrapper.accepts*/ /*@C14.cpc.wrapper.rejects*/ r is Ok <==> cpc_header_spec(bytes@) is Some,
-        /*@C13.cpc.wrapper.fields*/ r matches Ok(w) ==> cpc_header_spec(bytes@) == Some(w.hdr()),
-    {
-        let ghost b = bytes@;
-        let ghost mut pos: int = 0;
-        proof { lemma_flag_masks(); }
-        let mut cursor = SketchSlice::new(bytes);
-        let preamble_ints = cursor
-            .read_u8()
-            .vx_io("preamble_ints")?;
-        proof { lemma_read(b, pos, 1); pos = pos + 1; }
-        let serial_version = cursor
-            .read_u8()
-            .vx_io("serial_version")?;
-        proof { lemma_read(b, pos, 1); pos = pos + 1; }
-        let family_id = cursor.read_u8().vx_io("family_id")?;
-        proof { lemma_read(b, pos, 1); pos = pos + 1; }
-        Family::CPC.validate_id(family_id)?;
-        ensure_serial_version_is(SERIAL_VERSION, serial_version)?;
+    fn new ( bytes : & [ u8 ] ) -> ( r : Result < Self , Error > ) ensures
+/*@C13.cpc.wrapper.accepts*/
+/*@C14.cpc.wrapper.rejects*/ r is Ok <==> cpc_header_spec ( bytes @ ) is Some ,
+/*@C13.cpc.wrapper.fields*/ r matches Ok ( w ) ==> cpc_header_spec ( bytes @ ) == Some ( w . hdr ( ) ) , {
+let ghost b = bytes @ ;
+let ghost mut pos : int = 0 ;
+proof {
+lemma_flag_masks ( ) ;
+}
+let mut cursor = SketchSlice :: new ( bytes ) ;
+let preamble_ints = cursor . read_u8 ( ) . vx_io ( "preamble_ints" ) ? ;
+proof {
+lemma_read ( b , pos , 1 ) ;
+pos = pos + 1 ;
+}
+let serial_version = cursor . read_u8 ( ) . vx_io ( "serial_version" ) ? ;
+proof {
+lemma_read ( b , pos , 1 ) ;
+pos = pos + 1 ;
+}
+let family_id = cursor . read_u8 ( ) . vx_io ( "family_id" ) ? ;
+proof {
+lemma_read ( b , pos , 1 ) ;
+pos = pos + 1 ;
+}
+Family :: CPC . validate_id ( family_id ) ? ;
+ensure_serial_version_is ( SERIAL_VERSION , serial_version ) ? ;
+let lg_k = cursor . read_u8 ( ) . vx_io ( "lg_k" ) ? ;
+proof {
+lemma_read ( b , pos , 1 ) ;
+pos = pos + 1 ;
+}
+let first_interesting_column = cursor . read_u8 ( ) . vx_io ( "first_interesting_column" ) ? ;
+proof {
+lemma_read ( b , pos , 1 ) ;
+pos = pos + 1 ;
+}
+if ! ( MIN_LG_K ..= MAX_LG_K ) . contains ( & lg_k ) {
+return Err ( Error :: invalid_argument ( format! ( "lg_k out of range; got {}" , lg_k ) ) ) ;
+}
+if first_interesting_column > 63 {
+return Err ( Error :: invalid_argument ( format! ( "first_interesting_column out of range; got {}" , first_interesting_column ) ) ) ;
+}
+let flags = cursor . read_u8 ( ) . vx_io ( "flags" ) ? ;
+proof {
+lemma_read ( b , pos , 1 ) ;
+pos = pos + 1 ;
+}
+let is_compressed = flags & ( 1 << FLAG_COMPRESSED ) != 0 ;
+if ! is_compressed {
+return Err ( Error :: new ( ErrorKind :: InvalidData , "only compressed sketches are supported" , ) ) ;
+}
+let has_hip = flags & ( 1 << FLAG_HAS_HIP ) != 0 ;
+let has_table = flags & ( 1 << FLAG_HAS_TABLE ) != 0 ;
+let has_window = flags & ( 1 << FLAG_HAS_WINDOW ) != 0 ;
+proof {
+assert ( has_hip == f_hip ( b ) && has_table == f_table ( b ) && has_window == f_window ( b ) && f_compressed ( b ) ) ;
+}
+cursor . read_u16_le ( ) . vx_io ( "seed_hash" ) ? ;
+proof {
+lemma_read ( b , pos , 2 ) ;
+pos = pos + 2 ;
+}
+let mut num_coupons = 0 ;
+let mut hip_est_accum = 0.0 ;
+if has_table || has_window {
+num_coupons = cursor . read_u32_le ( ) . vx_io ( "num_coupons" ) ? ;
+proof {
+lemma_read ( b , pos , 4 ) ;
+pos = pos + 4 ;
+}
+if has_table && has_window {
+cursor . read_u32_le ( ) . vx_io ( "table_num_entries" ) ? ;
+proof {
+lemma_read ( b , pos , 4 ) ;
+pos = pos + 4 ;
+}
+if has_hip {
+cursor . read_f64_le ( ) . vx_io ( "kxp" ) ? ;
+proof {
+lemma_read ( b , pos , 8 ) ;
+pos = pos + 8 ;
+}
+hip_est_accum = cursor . read_f64_le ( ) . vx_io ( "hip_est_accum" ) ? ;
+proof {
+lemma_read ( b , pos , 8 ) ;
+pos = pos + 8 ;
+}
+}
+}
+proof {
+assert ( pos == off_svlen ( b ) ) ;
+}
+if has_table {
+cursor . read_u32_le ( ) . vx_io ( "table_data_words" ) ? ;
+proof {
+lemma_read ( b , pos , 4 ) ;
+pos = pos + 4 ;
+}
+}
+if has_window {
+cursor . read_u32_le ( ) . vx_io ( "window_data_words" ) ? ;
+proof {
+lemma_read ( b , pos , 4 ) ;
+pos = pos + 4 ;
+}
+}
+proof {
+assert ( pos == off_hip2 ( b ) ) ;
+}
+if has_hip && ! ( has_table && has_window ) {
+cursor . read_f64_le ( ) . vx_io ( "kxp" ) ? ;
+proof {
+lemma_read ( b , pos , 8 ) ;
+pos = pos + 8 ;
+}
+hip_est_accum = cursor . read_f64_le ( ) . vx_io ( "hip_est_accum" ) ? ;
+proof {
+lemma_read ( b , pos , 8 ) ;
+pos = pos + 8 ;
+}
+}
+}
+proof {
+assert ( pos == pre_end ( b ) ) ;
+assert ( hip_est_accum == hip_value ( b ) ) ;
+}
+let expected_preamble_ints = make_preamble_ints ( num_coupons , has_hip , has_table , has_window ) ;
+ensure_preamble_longs_in ( & [ expected_preamble_ints ] , preamble_ints ) ? ;
+Ok ( CpcWrapper {
+lg_k , merge_flag : ! has_hip , num_coupons , hip_est_accum , }
+) }
 
-        let lg_k = cursor.read_u8().vx_io("lg_k")?;
-        proof { lemma_read(b, pos, 1); pos = pos + 1; }
-        let first_interesting_column = cursor
-            .read_u8()
-            .vx_io("first_interesting_column")?;
-        proof { lemma_read(b, pos, 1); pos = pos + 1; }
-        if !(MIN_LG_K..=MAX_LG_K).contains(&lg_k) {
-            return Err(Error::invalid_argument(format!(
-                "lg_k out of range; got {}",
-                lg_k
-            )));
-        }
-        if first_interesting_column > 63 {
-            return Err(Error::invalid_argument(format!(
-                "first_interesting_column out of range; got {}",
-                first_interesting_column
-            )));
-        }
-
-        let flags = cursor.read_u8().vx_io("flags")?;
-        proof { lemma_read(b, pos, 1); pos = pos + 1; }
-        let is_compressed = flags & (1 << FLAG_COMPRESSED) != 0;
-        if !is_compressed {
-            return Err(Error::new(
-                ErrorKind::InvalidData,
-                "only compressed sketches are supported",
-            ));
-        }
-        let has_hip = flags & (1 << FLAG_HAS_HIP) != 0;
-        let has_table = flags & (1 << FLAG_HAS_TABLE) != 0;
-        let has_window = flags & (1 << FLAG_HAS_WINDOW) != 0;
-        proof { assert(has_hip == f_hip(b) && has_table == f_table(b) && has_window == f_window(b) && f_compressed(b)); }
-
-        cursor
-            .read_u16_le()
-            .vx_io("seed_hash")?;
-        proof { lemma_read(b, pos, 2); pos = pos + 2; }
-
-        let mut num_coupons = 0;
-        let mut hip_est_accum = 0.0;
-
-        if has_table || has_window {
-            num_coupons = cursor
-                .read_u32_le()
-                .vx_io("num_coupons")?;
-            proof { lemma_read(b, pos, 4); pos = pos + 4; }
-            if has_table && has_window {
-                cursor
-                    .read_u32_le()
-                    .vx_io("table_num_entries")?;
-                proof { lemma_read(b, pos, 4); pos = pos + 4; }
-                if has_hip {
-                    cursor.read_f64_le().vx_io("kxp")?;
-                    proof { lemma_read(b, pos, 8); pos = pos + 8; }
-                    hip_est_accum = cursor
-                        .read_f64_le()
-                        .vx_io("hip_est_accum")?;
-                    proof { lemma_read(b, pos, 8); pos = pos + 8; }
-                }
-            }
-            proof { assert(pos == off_svlen(b)); }
-            if has_table {
-                cursor
-                    .read_u32_le()
-                    .vx_io("table_data_words")?;
-                proof { lemma_read(b, pos, 4); pos = pos + 4; }
-            }
-            if has_window {
-                cursor
-                    .read_u32_le()
-                    .vx_io("window_data_words")?;
-                proof { lemma_read(b, pos, 4); pos = pos + 4; }
-            }
-            proof { assert(pos == off_hip2(b)); }
-            if has_hip && !(has_table && has_window) {
-                cursor.read_f64_le().vx_io("kxp")?;
-                proof { lemma_read(b, pos, 8); pos = pos + 8; }
-                hip_est_accum = cursor
-                    .read_f64_le()
-                    .vx_io("hip_est_accum")?;
-                proof { lemma_read(b, pos, 8); pos = pos + 8; }
-            }
-        }
-        proof { assert(pos == pre_end(b)); assert(hip_est_accum == hip_value(b)); }
-
-        let expected_preamble_ints =
-            make_preamble_ints(num_coupons, has_hip, has_table, has_window);
-        ensure_preamble_longs_in(&[expected_preamble_ints], preamble_ints)?;
-        Ok(CpcWrapper {
-            lg_k,
-            merge_flag: !has_hip,
-            num_coupons,
-            hip_est_accum,
-        })
-    }
 }
 
 // the wrapper reads the same header as the full parser: whenever deserialize_with_seed returns Ok(s), CpcWrapper::new returns Ok(w) with the
@@ -1535,11 +1534,10 @@ proof fn c13_cpc_wrapper_nonempty_flags(b: Seq<u8>)
 {
 }
 // (a') C11 for the EMPTY sketch: kxp is not in the image of an empty sketch (correct per the format), so the reader must restore the value a fresh
-//      sketch has (CpcSketch::with_seed: `kxp: (1 << lg_k) as f64`).  It leaves 0.0: after deserialize(serialize(new(lg_k))) every update adds
-//      k / 0.0 = inf to the HIP accumulator.
-uninterp spec fn kxp_fresh(lg_k: u8) -> f64;      // (1 << lg_k) as f64
+//      sketch has (CpcSketch::with_seed: `kxp: (1 << lg_k) as f64`).  Before the fix b2cb011 it left 0.0 (after deserialize(serialize(new(lg_k)))
+//      every update added k / 0.0 = inf to the HIP accumulator); now proved for every format-conformant image.
 proof fn c11_cpc_empty_kxp(b: Seq<u8>, seed: u64, s: CpcSketch)
-  requires deser_delivers(b, seed, s), s.num_coupons == 0, !s.merge_flag
+  requires deser_delivers(b, seed, s), cpc_nonempty_ok(b), s.num_coupons == 0
   ensures /*@C11.cpc.empty_kxp*/ s.kxp == kxp_fresh(s.lg_k)
 {
 }
@@ -1765,221 +1763,173 @@ proof fn lemma_first_one_skip(s: Seq<bool>, j: int)
 }
 proof fn lemma_first_one_bound(s: Seq<bool>) ensures 0 <= first_one(s) <= s.len() decreases s.len() { if s.len() > 0 { lemma_first_one_bound(s.skip(1)); } }
 
-fn maybe_flush_bitbuf(
-    bitbuf: &mut u64,
-    bufbits: &mut u8,
-    word: &mut [u32],
-    word_index: &mut usize,
-)
-  requires
-    *old(bufbits) >= 32 ==> *old(word_index) < old(word)@.len(),     // `word[*word_index]`
-    buf_clean(*old(bitbuf), *old(bufbits) as int),
-  ensures
-    /*@C12.cpc.bits.flush*/ wstream(final(word)@, *final(word_index) as int, *final(bitbuf), *final(bufbits) as int) == wstream(old(word)@, *old(word_index) as int, *old(bitbuf), *old(bufbits) as int),
-    final(word)@.len() == old(word)@.len(),
-    *old(bufbits) >= 32 ==> *final(bufbits) == *old(bufbits) - 32 && *final(word_index) == *old(word_index) + 1,
-    *old(bufbits) < 32 ==> *final(bufbits) == *old(bufbits) && *final(word_index) == *old(word_index) && *final(bitbuf) == *old(bitbuf) && final(word)@ == old(word)@,
-    buf_clean(*final(bitbuf), *final(bufbits) as int),
-{
-    if *bufbits >= 32 {
-        proof {
-            lemma_buf_split(*bitbuf, *bufbits as int);
-            lemma_buf_shift(*bitbuf, *bufbits as int, 32);
-        }
-        word[*word_index] = (*bitbuf & 0xffffffff) as u32;
-        *word_index += 1;
-        *bitbuf >>= 32;
-        *bufbits -= 32;
-        proof {
-            let i0 = *old(word_index) as int; let lo = (*old(bitbuf) & 0xffffffff) as u32;
-            assert(word@.take(i0 + 1).drop_last() =~= old(word)@.take(i0));
-            assert(word@.take(i0 + 1).last() == lo);
-            assert(wstream(word@, i0 + 1, *bitbuf, *bufbits as int) =~= wstream(old(word)@, i0, *old(bitbuf), *old(bufbits) as int));
-        }
-    }
+fn maybe_flush_bitbuf ( bitbuf : & mut u64 , bufbits : & mut u8 , word : & mut [ u32 ] , word_index : & mut usize , ) requires * old ( bufbits ) >= 32 ==> * old ( word_index ) < old ( word ) @ . len ( ) , buf_clean ( * old ( bitbuf ) , * old ( bufbits ) as int ) , ensures
+/*@C12.cpc.bits.flush*/ wstream ( final ( word ) @ , * final ( word_index ) as int , * final ( bitbuf ) , * final ( bufbits ) as int ) == wstream ( old ( word ) @ , * old ( word_index ) as int , * old ( bitbuf ) , * old ( bufbits ) as int ) , final ( word ) @ . len ( ) == old ( word ) @ . len ( ) , * old ( bufbits ) >= 32 ==> * final ( bufbits ) == * old ( bufbits ) - 32 && * final ( word_index ) == * old ( word_index ) + 1 , * old ( bufbits ) < 32 ==> * final ( bufbits ) == * old ( bufbits ) && * final ( word_index ) == * old ( word_index ) && * final ( bitbuf ) == * old ( bitbuf ) && final ( word ) @ == old ( word ) @ , buf_clean ( * final ( bitbuf ) , * final ( bufbits ) as int ) , {
+if * bufbits >= 32 {
+proof {
+lemma_buf_split ( * bitbuf , * bufbits as int ) ;
+lemma_buf_shift ( * bitbuf , * bufbits as int , 32 ) ;
+}
+word [ * word_index ] = ( * bitbuf & 0xffffffff ) as u32 ;
+* word_index += 1 ;
+* bitbuf >>= 32 ;
+* bufbits -= 32 ;
+proof {
+let i0 = * old ( word_index ) as int ;
+let lo = ( * old ( bitbuf ) & 0xffffffff ) as u32 ;
+assert ( word @ . take ( i0 + 1 ) . drop_last ( ) =~= old ( word ) @ . take ( i0 ) ) ;
+assert ( word @ . take ( i0 + 1 ) . last ( ) == lo ) ;
+assert ( wstream ( word @ , i0 + 1 , * bitbuf , * bufbits as int ) =~= wstream ( old ( word ) @ , i0 , * old ( bitbuf ) , * old ( bufbits ) as int ) ) ;
+}
+}
 }
 
-fn maybe_fill_bitbuf(
-    bitbuf: &mut u64,
-    bufbits: &mut u8,
-    words: &[u32],
-    word_index: &mut usize,
-    minbits: u8,
-)
-  requires
-    /*@C14.cpc.bits.fill_in_bounds*/ *old(bufbits) < minbits ==> *old(word_index) < words@.len(),     // `words[*word_index]`: UNCHECKED against the data length
-    minbits <= 32,
-    buf_clean(*old(bitbuf), *old(bufbits) as int),
-  ensures
-    /*@C13.cpc.bits.fill*/ rstream(words@, *final(word_index) as int, *final(bitbuf), *final(bufbits) as int) == rstream(words@, *old(word_index) as int, *old(bitbuf), *old(bufbits) as int),
-    *final(bufbits) >= minbits,
-    *old(bufbits) < minbits ==> *final(bufbits) == *old(bufbits) + 32 && *final(word_index) == *old(word_index) + 1,
-    *old(bufbits) >= minbits ==> *final(bufbits) == *old(bufbits) && *final(word_index) == *old(word_index) && *final(bitbuf) == *old(bitbuf),
-    buf_clean(*final(bitbuf), *final(bufbits) as int),
-{
-    if *bufbits < minbits {
-        proof {
-            let i0 = *word_index as int; let w = words@[i0];
-            lemma_buf_join(*bitbuf, *bufbits as int, w);
-            assert(words@.skip(i0) =~= seq![w] + words@.skip(i0 + 1));
-            lemma_words_bits_concat(seq![w], words@.skip(i0 + 1));
-            lemma_words_bits_one(w);
-            let n = *bufbits as u64; let nu = *bufbits;
-            assert((w as u64) << n == (w as u64) << nu) by (bit_vector) requires n == nu as u64;
-        }
-        *bitbuf |= (words[*word_index] as u64) << *bufbits;
-        *word_index += 1;
-        *bufbits += 32;
-        proof {
-            let i0 = *old(word_index) as int; let w = words@[i0];
-            assert(rstream(words@, i0 + 1, *bitbuf, *bufbits as int) =~= rstream(words@, i0, *old(bitbuf), *old(bufbits) as int));
-        }
-    }
+
+fn maybe_fill_bitbuf ( bitbuf : & mut u64 , bufbits : & mut u8 , words : & [ u32 ] , word_index : & mut usize , minbits : u8 , ) requires
+/*@C14.cpc.bits.fill_in_bounds*/ * old ( bufbits ) < minbits ==> * old ( word_index ) < words @ . len ( ) , minbits <= 32 , buf_clean ( * old ( bitbuf ) , * old ( bufbits ) as int ) , ensures
+/*@C13.cpc.bits.fill*/ rstream ( words @ , * final ( word_index ) as int , * final ( bitbuf ) , * final ( bufbits ) as int ) == rstream ( words @ , * old ( word_index ) as int , * old ( bitbuf ) , * old ( bufbits ) as int ) , * final ( bufbits ) >= minbits , * old ( bufbits ) < minbits ==> * final ( bufbits ) == * old ( bufbits ) + 32 && * final ( word_index ) == * old ( word_index ) + 1 , * old ( bufbits ) >= minbits ==> * final ( bufbits ) == * old ( bufbits ) && * final ( word_index ) == * old ( word_index ) && * final ( bitbuf ) == * old ( bitbuf ) , buf_clean ( * final ( bitbuf ) , * final ( bufbits ) as int ) , {
+if * bufbits < minbits {
+proof {
+let i0 = * word_index as int ;
+let w = words @ [ i0 ] ;
+lemma_buf_join ( * bitbuf , * bufbits as int , w ) ;
+assert ( words @ . skip ( i0 ) =~= seq! [ w ] + words @ . skip ( i0 + 1 ) ) ;
+lemma_words_bits_concat ( seq! [ w ] , words @ . skip ( i0 + 1 ) ) ;
+lemma_words_bits_one ( w ) ;
+let n = * bufbits as u64 ;
+let nu = * bufbits ;
+assert ( ( w as u64 ) << n == ( w as u64 ) << nu ) by ( bit_vector ) requires n == nu as u64 ;
+}
+* bitbuf |= ( words [ * word_index ] as u64 ) << * bufbits ;
+* word_index += 1 ;
+* bufbits += 32 ;
+proof {
+let i0 = * old ( word_index ) as int ;
+let w = words @ [ i0 ] ;
+assert ( rstream ( words @ , i0 + 1 , * bitbuf , * bufbits as int ) =~= rstream ( words @ , i0 , * old ( bitbuf ) , * old ( bufbits ) as int ) ) ;
+}
+}
 }
 
-fn write_unary(
-    compressed_words: &mut [u32],
-    next_word_index: &mut usize,
-    bitbuf: &mut u64,
-    bufbits: &mut u8,
-    value: u64,
-)
-  requires
-    *old(bufbits) <= 31,      // the assert!
-    buf_clean(*old(bitbuf), *old(bufbits) as int),
-    // room for every word that becomes full (`word[*word_index]` in maybe_flush_bitbuf)
-    32 * *old(next_word_index) + *old(bufbits) + value + 1 <= 32 * old(compressed_words)@.len() + 31,
-  ensures
-    /*@C12.cpc.bits.write_unary*/ wstream(final(compressed_words)@, *final(next_word_index) as int, *final(bitbuf), *final(bufbits) as int)
-        == wstream(old(compressed_words)@, *old(next_word_index) as int, *old(bitbuf), *old(bufbits) as int) + unary(value as int),
-    final(compressed_words)@.len() == old(compressed_words)@.len(),
-    *final(bufbits) <= 31, buf_clean(*final(bitbuf), *final(bufbits) as int),
-    32 * *final(next_word_index) + *final(bufbits) == 32 * *old(next_word_index) + *old(bufbits) + value + 1,
-{
-    assert!(*bufbits <= 31);
-    let ghost s0 = wstream(compressed_words@, *next_word_index as int, *bitbuf, *bufbits as int);
-    let ghost len = compressed_words@.len();
-    let ghost t0 = 32 * *next_word_index + *bufbits;
 
-    let mut remaining = value;
-    proof { assert(s0 + zeros(0) =~= s0); }
-    while remaining >= 16
-      invariant
-        remaining <= value, compressed_words@.len() == len, *bufbits <= 31, buf_clean(*bitbuf, *bufbits as int),
-        wstream(compressed_words@, *next_word_index as int, *bitbuf, *bufbits as int) == s0 + zeros(value - remaining),
-        32 * *next_word_index + *bufbits == t0 + (value - remaining),
-        t0 + value + 1 <= 32 * len + 31,
-      decreases remaining
-    {
-        remaining -= 16;
-        // Here we output 16 zeros, but we don't need to physically write them into bitbuf
-        // because it already contains zeros in that region.
-        proof {
-            lemma_buf_zeros(*bitbuf, *bufbits as int, 16);
-            let w = words_bits(compressed_words@.take(*next_word_index as int));
-            assert(w + (buf_bits(*bitbuf, *bufbits as int) + zeros(16)) =~= (w + buf_bits(*bitbuf, *bufbits as int)) + zeros(16));
-            assert(s0 + zeros(value - remaining - 16) + zeros(16) =~= s0 + zeros(value - remaining));
-        }
-        *bufbits += 16; // Record the fact that 16 bits of output have occurred.
-        maybe_flush_bitbuf(bitbuf, bufbits, compressed_words, next_word_index);
-    }
-
-    proof {
-        lemma_buf_unary(*bitbuf, *bufbits as int, remaining);
-        let n = *bufbits as u64; let nu = *bufbits;
-        assert(((1u64 << remaining) << n) == ((1u64 << remaining) << nu)) by (bit_vector) requires n == nu as u64;
-        assert(remaining <= 15 ==> (1u64 << remaining) <= 0x8000) by (bit_vector);
-        let w = words_bits(compressed_words@.take(*next_word_index as int));
-        assert(w + (buf_bits(*bitbuf, *bufbits as int) + unary(remaining as int)) =~= (w + buf_bits(*bitbuf, *bufbits as int)) + unary(remaining as int));
-        assert(s0 + zeros(value - remaining) + unary(remaining as int) =~= s0 + unary(value as int));
-    }
-    let the_unary_code = 1 << remaining;
-    *bitbuf |= the_unary_code << *bufbits;
-    *bufbits += (remaining + 1) as u8;
-    maybe_flush_bitbuf(bitbuf, bufbits, compressed_words, next_word_index);
+fn write_unary ( compressed_words : & mut [ u32 ] , next_word_index : & mut usize , bitbuf : & mut u64 , bufbits : & mut u8 , value : u64 , ) requires * old ( bufbits ) <= 31 , buf_clean ( * old ( bitbuf ) , * old ( bufbits ) as int ) , 32 * * old ( next_word_index ) + * old ( bufbits ) + value + 1 <= 32 * old ( compressed_words ) @ . len ( ) + 31 , ensures
+/*@C12.cpc.bits.write_unary*/ wstream ( final ( compressed_words ) @ , * final ( next_word_index ) as int , * final ( bitbuf ) , * final ( bufbits ) as int ) == wstream ( old ( compressed_words ) @ , * old ( next_word_index ) as int , * old ( bitbuf ) , * old ( bufbits ) as int ) + unary ( value as int ) , final ( compressed_words ) @ . len ( ) == old ( compressed_words ) @ . len ( ) , * final ( bufbits ) <= 31 , buf_clean ( * final ( bitbuf ) , * final ( bufbits ) as int ) , 32 * * final ( next_word_index ) + * final ( bufbits ) == 32 * * old ( next_word_index ) + * old ( bufbits ) + value + 1 , {
+assert! ( * bufbits <= 31 ) ;
+let ghost s0 = wstream ( compressed_words @ , * next_word_index as int , * bitbuf , * bufbits as int ) ;
+let ghost len = compressed_words @ . len ( ) ;
+let ghost t0 = 32 * * next_word_index + * bufbits ;
+let mut remaining = value ;
+proof {
+assert ( s0 + zeros ( 0 ) =~= s0 ) ;
+}
+while remaining >= 16 invariant remaining <= value , compressed_words @ . len ( ) == len , * bufbits <= 31 , buf_clean ( * bitbuf , * bufbits as int ) , wstream ( compressed_words @ , * next_word_index as int , * bitbuf , * bufbits as int ) == s0 + zeros ( value - remaining ) , 32 * * next_word_index + * bufbits == t0 + ( value - remaining ) , t0 + value + 1 <= 32 * len + 31 , decreases remaining {
+remaining -= 16 ;
+proof {
+lemma_buf_zeros ( * bitbuf , * bufbits as int , 16 ) ;
+let w = words_bits ( compressed_words @ . take ( * next_word_index as int ) ) ;
+assert ( w + ( buf_bits ( * bitbuf , * bufbits as int ) + zeros ( 16 ) ) =~= ( w + buf_bits ( * bitbuf , * bufbits as int ) ) + zeros ( 16 ) ) ;
+assert ( s0 + zeros ( value - remaining - 16 ) + zeros ( 16 ) =~= s0 + zeros ( value - remaining ) ) ;
+}
+* bufbits += 16 ;
+maybe_flush_bitbuf ( bitbuf , bufbits , compressed_words , next_word_index ) ;
+}
+proof {
+lemma_buf_unary ( * bitbuf , * bufbits as int , remaining ) ;
+let n = * bufbits as u64 ;
+let nu = * bufbits ;
+assert ( ( ( 1u64 << remaining ) << n ) == ( ( 1u64 << remaining ) << nu ) ) by ( bit_vector ) requires n == nu as u64 ;
+assert ( remaining <= 15 ==> ( 1u64 << remaining ) <= 0x8000 ) by ( bit_vector ) ;
+let w = words_bits ( compressed_words @ . take ( * next_word_index as int ) ) ;
+assert ( w + ( buf_bits ( * bitbuf , * bufbits as int ) + unary ( remaining as int ) ) =~= ( w + buf_bits ( * bitbuf , * bufbits as int ) ) + unary ( remaining as int ) ) ;
+assert ( s0 + zeros ( value - remaining ) + unary ( remaining as int ) =~= s0 + unary ( value as int ) ) ;
+}
+let the_unary_code = 1 << remaining ;
+* bitbuf |= the_unary_code << * bufbits ;
+* bufbits += ( remaining + 1 ) as u8 ;
+maybe_flush_bitbuf ( bitbuf , bufbits , compressed_words , next_word_index ) ;
 }
 
-fn read_unary(
-    compressed_words: &[u32],
-    next_word_index: &mut usize,
-    bitbuf: &mut u64,
-    bufbits: &mut u8,
-) -> (r: u64)
-  requires
-    buf_clean(*old(bitbuf), *old(bufbits) as int), *old(bufbits) <= 63,
-    // a terminating one followed by 7 more bits: what the writer's padding provides.  On ARBITRARY data (deserialize) nothing provides it:
-    // an all-zero tail makes the loop run off the end of `words` (index panic in maybe_fill_bitbuf)
-    /*@C14.cpc.bits.unary_terminates*/ first_one(rstream(compressed_words@, *old(next_word_index) as int, *old(bitbuf), *old(bufbits) as int)) + 8
-        <= rstream(compressed_words@, *old(next_word_index) as int, *old(bitbuf), *old(bufbits) as int).len(),
-    *old(next_word_index) <= compressed_words@.len() <= 0x3ff_ffff_ffff_ffff,
-  ensures
-    /*@C13.cpc.bits.read_unary*/ r == first_one(rstream(compressed_words@, *old(next_word_index) as int, *old(bitbuf), *old(bufbits) as int)),
-    /*@C13.cpc.bits.read_unary_rest*/ rstream(compressed_words@, *final(next_word_index) as int, *final(bitbuf), *final(bufbits) as int)
-        == rstream(compressed_words@, *old(next_word_index) as int, *old(bitbuf), *old(bufbits) as int).skip(r + 1),
-    buf_clean(*final(bitbuf), *final(bufbits) as int), *final(bufbits) <= 63, *final(next_word_index) <= compressed_words@.len(),
-{
-    let ghost rs0 = rstream(compressed_words@, *next_word_index as int, *bitbuf, *bufbits as int);
-    let mut subtotal = 0u64;
-    proof { assert(rs0.skip(0) =~= rs0); lemma_first_one_bound(rs0); lemma_words_bits_len(compressed_words@.skip(*next_word_index as int)); }
-    loop
-      invariant
-        buf_clean(*bitbuf, *bufbits as int), *bufbits <= 63, *next_word_index <= compressed_words@.len() <= 0x3ff_ffff_ffff_ffff,
-        rstream(compressed_words@, *next_word_index as int, *bitbuf, *bufbits as int) == rs0.skip(subtotal as int),
-        subtotal <= first_one(rs0), first_one(rs0) == subtotal + first_one(rs0.skip(subtotal as int)),
-        first_one(rs0) + 8 <= rs0.len(), rs0.len() <= 64 + 32 * compressed_words@.len(),
-        rs0 == rstream(compressed_words@, *old(next_word_index) as int, *old(bitbuf), *old(bufbits) as int),
-      decreases rs0.len() - subtotal
-    {
-        let ghost cur = rs0.skip(subtotal as int);
-        proof { lemma_words_bits_len(compressed_words@.skip(*next_word_index as int)); }
-        // ensure 8 bits in bit buffer
-        maybe_fill_bitbuf(bitbuf, bufbits, compressed_words, next_word_index, 8);
-        // These 8 bits include either all or part of the Unary codeword
-        let peek8 = *bitbuf & 0xff;
-        let trailing_zeros = peek8.trailing_zeros() as u8;
-        proof {
-            axiom_u64_trailing_zeros(peek8);
-            let b = *bitbuf; let tz = u64_trailing_zeros(peek8);
-            assert((b & 0xff) == 0 ==> forall|j: u64| j < 8 ==> !(#[trigger] (b >> j) & 1 == 1)) by (bit_vector);
-            assert(forall|j: u64| j < 8 ==> (#[trigger] ((b & 0xff) >> j) & 1 == 1) == ((b >> j) & 1 == 1)) by (bit_vector);
-            assert((b & 0xff) != 0 ==> (b & 0xff) < 256) by (bit_vector);
-            if tz < 64 { let t = tz as u64; assert((b & 0xff) < 256 && ((b & 0xff) >> t) & 1 == 1 ==> t < 8) by (bit_vector); }
-            lemma_words_bits_len(compressed_words@.skip(*next_word_index as int));
-            if trailing_zeros < 8 {
-                let t = trailing_zeros as int;
-                assert(cur[t]) by { assert(cur[t] == bit64(b, t)); assert(((peek8 >> (t as u64)) & 1 == 1) == ((b >> (t as u64)) & 1 == 1)); }
-                assert forall|i: int| 0 <= i < t implies !cur[i] by { let iu = i as u64; assert(cur[i] == bit64(b, i)); assert((peek8 >> iu) & 1u64 == 0u64); assert(((peek8 >> iu) & 1 == 1) == ((b >> iu) & 1 == 1)); }
-                lemma_first_one_at(cur, t);
-                lemma_buf_shift(b, *bufbits as int, t + 1);
-                let sh = (1 + trailing_zeros) as u8; let sh64 = (t + 1) as u64;
-                assert((b >> sh) == (b >> sh64)) by (bit_vector) requires sh64 == sh as u64;
-            } else {
-                assert forall|i: int| 0 <= i < 8 implies !cur[i] by { let iu = i as u64; assert(cur[i] == bit64(b, i)); assert(!((b >> iu) & 1 == 1)); }
-                lemma_first_one_skip(cur, 8);
-                assert(cur.skip(8) =~= rs0.skip(subtotal as int + 8));
-                lemma_buf_shift(b, *bufbits as int, 8);
-                lemma_first_one_bound(cur.skip(8));
-            }
-        }
-        if trailing_zeros < 8 {
-            *bufbits -= 1 + trailing_zeros;
-            *bitbuf >>= 1 + trailing_zeros;
-            proof {
-                let t = trailing_zeros as int;
-                assert(rstream(compressed_words@, *next_word_index as int, *bitbuf, *bufbits as int) =~= cur.skip(t + 1));
-                assert(cur.skip(t + 1) =~= rs0.skip(subtotal as int + t + 1));
-            }
-            return subtotal + trailing_zeros as u64;
-        }
-        // The codeword was partial, so read some more
-        subtotal += 8;
-        *bufbits -= 8;
-        *bitbuf >>= 8;
-        proof {
-            assert(rstream(compressed_words@, *next_word_index as int, *bitbuf, *bufbits as int) =~= cur.skip(8));
-        }
-    }
+
+fn read_unary ( compressed_words : & [ u32 ] , next_word_index : & mut usize , bitbuf : & mut u64 , bufbits : & mut u8 , ) -> ( r : u64 ) requires buf_clean ( * old ( bitbuf ) , * old ( bufbits ) as int ) , * old ( bufbits ) <= 63 ,
+/*@C14.cpc.bits.unary_terminates*/ first_one ( rstream ( compressed_words @ , * old ( next_word_index ) as int , * old ( bitbuf ) , * old ( bufbits ) as int ) ) + 8 <= rstream ( compressed_words @ , * old ( next_word_index ) as int , * old ( bitbuf ) , * old ( bufbits ) as int ) . len ( ) , * old ( next_word_index ) <= compressed_words @ . len ( ) <= 0x3ff_ffff_ffff_ffff , ensures
+/*@C13.cpc.bits.read_unary*/ r == first_one ( rstream ( compressed_words @ , * old ( next_word_index ) as int , * old ( bitbuf ) , * old ( bufbits ) as int ) ) ,
+/*@C13.cpc.bits.read_unary_rest*/ rstream ( compressed_words @ , * final ( next_word_index ) as int , * final ( bitbuf ) , * final ( bufbits ) as int ) == rstream ( compressed_words @ , * old ( next_word_index ) as int , * old ( bitbuf ) , * old ( bufbits ) as int ) . skip ( r + 1 ) , buf_clean ( * final ( bitbuf ) , * final ( bufbits ) as int ) , * final ( bufbits ) <= 63 , * final ( next_word_index ) <= compressed_words @ . len ( ) , {
+let ghost rs0 = rstream ( compressed_words @ , * next_word_index as int , * bitbuf , * bufbits as int ) ;
+let mut subtotal = 0u64 ;
+proof {
+assert ( rs0 . skip ( 0 ) =~= rs0 ) ;
+lemma_first_one_bound ( rs0 ) ;
+lemma_words_bits_len ( compressed_words @ . skip ( * next_word_index as int ) ) ;
 }
+loop invariant buf_clean ( * bitbuf , * bufbits as int ) , * bufbits <= 63 , * next_word_index <= compressed_words @ . len ( ) <= 0x3ff_ffff_ffff_ffff , rstream ( compressed_words @ , * next_word_index as int , * bitbuf , * bufbits as int ) == rs0 . skip ( subtotal as int ) , subtotal <= first_one ( rs0 ) , first_one ( rs0 ) == subtotal + first_one ( rs0 . skip ( subtotal as int ) ) , first_one ( rs0 ) + 8 <= rs0 . len ( ) , rs0 . len ( ) <= 64 + 32 * compressed_words @ . len ( ) , rs0 == rstream ( compressed_words @ , * old ( next_word_index ) as int , * old ( bitbuf ) , * old ( bufbits ) as int ) , decreases rs0 . len ( ) - subtotal {
+let ghost cur = rs0 . skip ( subtotal as int ) ;
+proof {
+lemma_words_bits_len ( compressed_words @ . skip ( * next_word_index as int ) ) ;
+}
+maybe_fill_bitbuf ( bitbuf , bufbits , compressed_words , next_word_index , 8 ) ;
+let peek8 = * bitbuf & 0xff ;
+let trailing_zeros = peek8 . trailing_zeros ( ) as u8 ;
+proof {
+axiom_u64_trailing_zeros ( peek8 ) ;
+let b = * bitbuf ;
+let tz = u64_trailing_zeros ( peek8 ) ;
+assert ( ( b & 0xff ) == 0 ==> forall | j : u64 | j < 8 ==> ! ( # [ trigger ] ( b >> j ) & 1 == 1 ) ) by ( bit_vector ) ;
+assert ( forall | j : u64 | j < 8 ==> ( # [ trigger ] ( ( b & 0xff ) >> j ) & 1 == 1 ) == ( ( b >> j ) & 1 == 1 ) ) by ( bit_vector ) ;
+assert ( ( b & 0xff ) != 0 ==> ( b & 0xff ) < 256 ) by ( bit_vector ) ;
+if tz < 64 {
+let t = tz as u64 ;
+assert ( ( b & 0xff ) < 256 && ( ( b & 0xff ) >> t ) & 1 == 1 ==> t < 8 ) by ( bit_vector ) ;
+}
+lemma_words_bits_len ( compressed_words @ . skip ( * next_word_index as int ) ) ;
+if trailing_zeros < 8 {
+let t = trailing_zeros as int ;
+assert ( cur [ t ] ) by {
+assert ( cur [ t ] == bit64 ( b , t ) ) ;
+assert ( ( ( peek8 >> ( t as u64 ) ) & 1 == 1 ) == ( ( b >> ( t as u64 ) ) & 1 == 1 ) ) ;
+}
+assert forall | i : int | 0 <= i < t implies ! cur [ i ] by {
+let iu = i as u64 ;
+assert ( cur [ i ] == bit64 ( b , i ) ) ;
+assert ( ( peek8 >> iu ) & 1u64 == 0u64 ) ;
+assert ( ( ( peek8 >> iu ) & 1 == 1 ) == ( ( b >> iu ) & 1 == 1 ) ) ;
+}
+lemma_first_one_at ( cur , t ) ;
+lemma_buf_shift ( b , * bufbits as int , t + 1 ) ;
+let sh = ( 1 + trailing_zeros ) as u8 ;
+let sh64 = ( t + 1 ) as u64 ;
+assert ( ( b >> sh ) == ( b >> sh64 ) ) by ( bit_vector ) requires sh64 == sh as u64 ;
+}
+else {
+assert forall | i : int | 0 <= i < 8 implies ! cur [ i ] by {
+let iu = i as u64 ;
+assert ( cur [ i ] == bit64 ( b , i ) ) ;
+assert ( ! ( ( b >> iu ) & 1 == 1 ) ) ;
+}
+lemma_first_one_skip ( cur , 8 ) ;
+assert ( cur . skip ( 8 ) =~= rs0 . skip ( subtotal as int + 8 ) ) ;
+lemma_buf_shift ( b , * bufbits as int , 8 ) ;
+lemma_first_one_bound ( cur . skip ( 8 ) ) ;
+}
+}
+if trailing_zeros < 8 {
+* bufbits -= 1 + trailing_zeros ;
+* bitbuf >>= 1 + trailing_zeros ;
+proof {
+let t = trailing_zeros as int ;
+assert ( rstream ( compressed_words @ , * next_word_index as int , * bitbuf , * bufbits as int ) =~= cur . skip ( t + 1 ) ) ;
+assert ( cur . skip ( t + 1 ) =~= rs0 . skip ( subtotal as int + t + 1 ) ) ;
+}
+return subtotal + trailing_zeros as u64 ;
+}
+subtotal += 8 ;
+* bufbits -= 8 ;
+* bitbuf >>= 8 ;
+proof {
+assert ( rstream ( compressed_words @ , * next_word_index as int , * bitbuf , * bufbits as int ) =~= cur . skip ( 8 ) ) ;
+}
+}
+}
+
 
 // C11 for the unary code: what write_unary appends is what read_unary consumes, and it returns the value
 proof fn lemma_unary_roundtrip(v: int, rest: Seq<bool>)
@@ -1992,121 +1942,119 @@ proof fn lemma_unary_roundtrip(v: int, rest: Seq<bool>)
     assert(s.skip(v + 1) =~= rest);
 }
 
-fn divide_longs_rounding_up(x: usize, y: usize) -> (r: usize)
-  requires y != 0       // the debug_assert; `quotient * y` cannot overflow since it is at most x
-  ensures r == (x + y - 1) / (y as int)
-{
-    debug_assert!(y != 0);
-    let quotient = x / y;
-    proof {
-        let q = (x as int) / (y as int);
-        vstd::arithmetic::div_mod::lemma_fundamental_div_mod(x as int, y as int);
-        assert(q * y <= x) by (nonlinear_arith) requires x == y * q + (x as int) % (y as int), (x as int) % (y as int) >= 0;
-        assert(0 <= q) by (nonlinear_arith) requires q == (x as int) / (y as int), x >= 0, y > 0;
-        let m = (x as int) % (y as int);
-        if m == 0 {
-            assert((x + y - 1) / (y as int) == q) by (nonlinear_arith) requires x == y * q, y > 0;
-        } else {
-            assert((x + y - 1) / (y as int) == q + 1) by (nonlinear_arith) requires x == y * q + m, 0 < m < y;
-            assert(q * y != x) by (nonlinear_arith) requires x == y * q + m, 0 < m;
-            assert(q + 1 <= usize::MAX) by (nonlinear_arith) requires q * y <= x, y >= 1, x == y * q + m, 0 < m, m < y, x <= usize::MAX;
-        }
-    }
-    if quotient * y == x {
-        quotient
-    } else {
-        quotient + 1
-    }
+fn divide_longs_rounding_up ( x : usize , y : usize ) -> ( r : usize ) requires y != 0 ensures r == ( x + y - 1 ) / ( y as int ) {
+debug_assert! ( y != 0 ) ;
+let quotient = x / y ;
+proof {
+let q = ( x as int ) / ( y as int ) ;
+vstd :: arithmetic :: div_mod :: lemma_fundamental_div_mod ( x as int , y as int ) ;
+assert ( q * y <= x ) by ( nonlinear_arith ) requires x == y * q + ( x as int ) % ( y as int ) , ( x as int ) % ( y as int ) >= 0 ;
+assert ( 0 <= q ) by ( nonlinear_arith ) requires q == ( x as int ) / ( y as int ) , x >= 0 , y > 0 ;
+let m = ( x as int ) % ( y as int ) ;
+if m == 0 {
+assert ( ( x + y - 1 ) / ( y as int ) == q ) by ( nonlinear_arith ) requires x == y * q , y > 0 ;
+}
+else {
+assert ( ( x + y - 1 ) / ( y as int ) == q + 1 ) by ( nonlinear_arith ) requires x == y * q + m , 0 < m < y ;
+assert ( q * y != x ) by ( nonlinear_arith ) requires x == y * q + m , 0 < m ;
+assert ( q + 1 <= usize :: MAX ) by ( nonlinear_arith ) requires q * y <= x , y >= 1 , x == y * q + m , 0 < m , m < y , x <= usize :: MAX ;
+}
+}
+if quotient * y == x {
+quotient }
+else {
+quotient + 1 }
 }
 
-fn safe_length_for_compressed_window_buf(k: u32) -> (r: usize)
-  requires 12 * k + 11 <= 0xffff_ffff      // `12 * k + 11` is u32 arithmetic: k <= 2^26 is fine
-  ensures r == (12 * k + 11 + 31) / 32
-{
-    // 11 bits of padding, due to 12-bit lookahead, with 1 bit certainly present.
-    let bits = 12 * k + 11;
-    divide_longs_rounding_up(bits as usize, 32)
+
+fn safe_length_for_compressed_window_buf ( k : u32 ) -> ( r : usize ) requires 12 * k + 11 <= 0xffff_ffff ensures r == ( 12 * k + 11 + 31 ) / 32 {
+let bits = 12 * k + 11 ;
+divide_longs_rounding_up ( bits as usize , 32 ) }
+
+
+fn floor_log2_of_long ( x : u64 ) -> ( r : u8 ) requires x > 0 , x <= 0x8000_0000_0000_0000 , ensures pow2 ( r as nat ) <= x < pow2 ( r as nat + 1 ) , r <= 63 {
+debug_assert! ( x > 0 ) ;
+let mut p = 0u8 ;
+let mut y = 1u64 ;
+proof {
+lemma2_to64 ( ) ;
+}
+loop invariant p <= 63 , y == pow2 ( p as nat ) , p > 0 ==> pow2 ( ( p - 1 ) as nat ) < x , 0 < x <= 0x8000_0000_0000_0000 , decreases 64 - p {
+proof {
+lemma2_to64 ( ) ;
+lemma2_to64_rest ( ) ;
+lemma_pow2_strictly_increases ( p as nat , p as nat + 1 ) ;
+if p > 0 {
+lemma_pow2_strictly_increases ( ( p - 1 ) as nat , p as nat ) ;
+}
+}
+match u64 :: cmp ( & y , & x ) {
+Ordering :: Equal => return p , Ordering :: Greater => return p - 1 , Ordering :: Less => {
+proof {
+if p >= 63 {
+assert ( pow2 ( 63 ) == 0x8000_0000_0000_0000 ) ;
+assert ( false ) ;
+}
+lemma_pow2_unfold ( p as nat + 1 ) ;
+assert ( y < 0x8000_0000_0000_0000 ==> ( y << 1 ) == y * 2 ) by ( bit_vector ) ;
+if p < 62 {
+lemma_pow2_strictly_increases ( p as nat + 1 , 63 ) ;
+}
+}
+p += 1 ;
+y <<= 1 ;
+}
+}
+}
 }
 
-fn floor_log2_of_long(x: u64) -> (r: u8)
-  requires x > 0,       // the debug_assert
-    // `y <<= 1` loses the top bit: for x > 2^63 the loop reaches y == 0 and never ends (debug: `p += 1` overflows after 255 rounds)
-    x <= 0x8000_0000_0000_0000,
-  ensures pow2(r as nat) <= x < pow2(r as nat + 1), r <= 63
-{
-    debug_assert!(x > 0);
-    let mut p = 0u8;
-    let mut y = 1u64;
-    proof { lemma2_to64(); }
-    loop
-      invariant p <= 63, y == pow2(p as nat), p > 0 ==> pow2((p - 1) as nat) < x, 0 < x <= 0x8000_0000_0000_0000,
-      decreases 64 - p
-    {
-        proof {
-            lemma2_to64(); lemma2_to64_rest();
-            lemma_pow2_strictly_increases(p as nat, p as nat + 1);
-            if p > 0 { lemma_pow2_strictly_increases((p - 1) as nat, p as nat); }
-        }
-        match u64::cmp(&y, &x) {
-            Ordering::Equal => return p,
-            Ordering::Greater => return p - 1,
-            Ordering::Less => {
-                proof {
-                    if p >= 63 { assert(pow2(63) == 0x8000_0000_0000_0000); assert(false); }
-                    lemma_pow2_unfold(p as nat + 1);
-                    assert(y < 0x8000_0000_0000_0000 ==> (y << 1) == y * 2) by (bit_vector);
-                    if p < 62 { lemma_pow2_strictly_increases(p as nat + 1, 63); }
-                }
-                p += 1;
-                y <<= 1;
-            }
-        }
-    }
+
+fn golomb_choose_number_of_base_bits ( k : u32 , count : u64 ) -> ( r : u8 ) requires count > 0 ,
+/*@C14.cpc.golomb.k_ge_count*/ k >= count , ensures r <= 31 , ( {
+let q = ( k as int - count as int ) / ( count as int ) ;
+if q == 0 {
+r == 0 }
+else {
+pow2 ( r as nat ) <= q < pow2 ( r as nat + 1 ) }
+}
+) {
+debug_assert! ( k > 0 ) ;
+debug_assert! ( count > 0 ) ;
+let quotient = ( ( k as u64 ) - count ) / count ;
+proof {
+let d = ( k as int ) - ( count as int ) ;
+assert ( d / ( count as int ) <= d ) by ( nonlinear_arith ) requires d >= 0 , count >= 1 ;
+assert ( 0 <= d / ( count as int ) ) by ( nonlinear_arith ) requires d >= 0 , count >= 1 ;
+}
+if quotient == 0 {
+0 }
+else {
+proof {
+lemma2_to64 ( ) ;
+assert forall | e : nat | e >= 32 implies # [ trigger ] pow2 ( e ) >= 0x1_0000_0000 by {
+lemma_pow2_increases ( 32 , e ) ;
+}
+}
+floor_log2_of_long ( quotient ) }
 }
 
-fn golomb_choose_number_of_base_bits(k: u32, count: u64) -> (r: u8)
-  requires
-    count > 0,          // debug_assert; division by zero otherwise (uncompress_surprising_values is only called with num_pairs > 0 ... except from the sparse / hybrid arms)
-    /*@C14.cpc.golomb.k_ge_count*/ k >= count,      // `(k as u64) - count`: k is `(1 << lg_k) + num_pairs` computed in u32 -- it wraps for num_pairs > 2^32 - 2^lg_k
-  ensures r <= 31, ({ let q = (k as int - count as int) / (count as int); if q == 0 { r == 0 } else { pow2(r as nat) <= q < pow2(r as nat + 1) } })
-{
-    debug_assert!(k > 0);
-    debug_assert!(count > 0);
-    let quotient = ((k as u64) - count) / count; // integer division
-    proof {
-        let d = (k as int) - (count as int);
-        assert(d / (count as int) <= d) by (nonlinear_arith) requires d >= 0, count >= 1;
-        assert(0 <= d / (count as int)) by (nonlinear_arith) requires d >= 0, count >= 1;
-    }
-    if quotient == 0 {
-        0
-    } else {
-        proof { lemma2_to64(); assert forall|e: nat| e >= 32 implies #[trigger] pow2(e) >= 0x1_0000_0000 by { lemma_pow2_increases(32, e); } }
-        floor_log2_of_long(quotient)
-    }
+
+fn safe_length_for_compressed_pair_buf ( k : u32 , num_pairs : u32 , num_base_bits : u8 ) -> ( r : usize ) requires num_base_bits < 64 ensures r == ( 12 * num_pairs + num_pairs * ( 1 + num_base_bits ) + ( k as usize >> ( num_base_bits as usize ) ) + ( if num_base_bits >= 10 {
+0int }
+else {
+10 - num_base_bits }
+) + 31 ) / 32 {
+let k = k as usize ;
+let num_pairs = num_pairs as usize ;
+let num_base_bits = num_base_bits as usize ;
+proof {
+assert ( num_pairs * ( 1 + num_base_bits ) <= 0xffff_ffff * 64 ) by ( nonlinear_arith ) requires num_pairs <= 0xffff_ffff , num_base_bits < 64 ;
+assert ( k <= 0xffff_ffff && num_base_bits < 64 ==> ( k >> num_base_bits ) <= 0xffff_ffff ) by ( bit_vector ) ;
 }
+let ybits = num_pairs * ( 1 + num_base_bits ) + ( k >> num_base_bits ) ;
+let xbits = 12 * ( num_pairs ) ;
+let padding = 10usize . saturating_sub ( num_base_bits ) ;
+divide_longs_rounding_up ( xbits + ybits + padding , 32 ) }
 
-fn safe_length_for_compressed_pair_buf(k: u32, num_pairs: u32, num_base_bits: u8) -> (r: usize)
-  requires num_base_bits < 64      // `k >> num_base_bits` on usize
-  ensures r == (12 * num_pairs + num_pairs * (1 + num_base_bits) + (k as usize >> (num_base_bits as usize)) + (if num_base_bits >= 10 { 0int } else { 10 - num_base_bits }) + 31) / 32
-{
-    // Long ybits = k + numPairs; // simpler and safer UB
-    // The following tighter UB on ybits is based on page 198
-    // of the textbook "Managing Gigabytes" by Witten, Moffat, and Bell.
-    // Notice that if numBaseBits == 0 it coincides with (k + numPairs).
-
-    let k = k as usize;
-    let num_pairs = num_pairs as usize;
-    let num_base_bits = num_base_bits as usize;
-    proof {
-        assert(num_pairs * (1 + num_base_bits) <= 0xffff_ffff * 64) by (nonlinear_arith) requires num_pairs <= 0xffff_ffff, num_base_bits < 64;
-        assert(k <= 0xffff_ffff && num_base_bits < 64 ==> (k >> num_base_bits) <= 0xffff_ffff) by (bit_vector);
-    }
-
-    let ybits = num_pairs * (1 + num_base_bits) + (k >> num_base_bits);
-    let xbits = 12 * (num_pairs);
-    let padding = 10usize.saturating_sub(num_base_bits);
-    divide_longs_rounding_up(xbits + ybits + padding, 32)
-}
 }
 fn main(){}
